@@ -10,8 +10,21 @@ def kindOk (t : Thread) : Bool :=
   | _, .notStarted | _, .done _ => true
   | .recv _, .parked _ => true
   | .conn, .parked _ | .conn, .window | .conn, .relock => true
-  | .flush, .floop | .flush, .fcb | .flush, .fend _ => true
+  | .flush, .floop | .flush, .fcb | .flush, .fend _ | .flush, .fdtor => true
   | _, _ => false
+
+/-! the regenerated values the model is instantiated with (a change of the source that flips one breaks the build here) -/
+theorem gated_r : gated "activeReceives" = true := by decide
+theorem gated_c : gated "activeConnects" = true := by decide
+theorem gated_f : gated "activeFlushes" = true := by decide
+theorem nrIo_true : nrIo = true := by decide
+theorem nrStopped_true : nrStopped = true := by decide
+theorem ioBranch_ok : ioBranchIdentityOnly = true := by decide
+theorem guard_ok (op : SyncOp) : guardIdentityOnly op = true := by cases op <;> decide
+
+/-- the wait predicate is the conjunction of all three counters being zero -/
+theorem gate_def (s : State) : gate s = (s.activeReceives == 0 && s.activeConnects == 0 && s.activeFlushes == 0) := by
+  simp [gate, gated_r, gated_c, gated_f]
 
 theorem inside_counted {t : Thread} (hk : kindOk t = true) (hi : inside t.pc = true) :
     countedRecv t = true ∨ countedConn t = true ∨ countedFlush t = true := by
@@ -96,7 +109,7 @@ structure Inv (s : State) : Prop where
   CC : s.activeConnects = s.threads.countP countedConn
   CF : s.activeFlushes = s.threads.countP countedFlush
   WC : waitCompleted s.td = true → ∀ (j : Nat) (t : Thread), s.threads[j]? = some t → inside t.pc = false
-  IA : s.implAlive = false → waitCompleted s.td = true
+  IA : s.implAlive = false → s.td = .destroyed
   UAF : s.uaf = false
   FS : s.td ≠ .idle → s.shuttingDown = true
   RN : s.recvNotified = true → s.shuttingDown = true
@@ -180,7 +193,11 @@ theorem upd_inv {s s' : State} (h : Inv s) {i : Nat} {t t' : Thread} (hi : s.thr
     rcases get_set hj with ⟨_, rfl⟩ | ⟨_, h'⟩
     · exact hin hw
     · exact h.WC hw j u h'
-  · intro hf; rw [hia] at hf; rw [hwc']; exact h.IA hf
+  · intro hf; rw [hia] at hf
+    have hd := h.IA hf
+    rcases htd with ⟨h1, _⟩ | h1
+    · rw [h1]; exact hd
+    · rw [h1, hd]; rfl
   · exact huaf
   · intro hne; rw [hsh]; exact h.FS (fun hh => hne (hidle.mpr hh))
   · intro hh; rw [hrn] at hh; rw [hsh]; exact h.RN hh
@@ -212,7 +229,7 @@ theorem upd_inv {s s' : State} (h : Inv s) {i : Nat} {t t' : Thread} (hi : s.thr
     rcases htd with ⟨h1, h2, h3, h4⟩ | h1
     · rw [h1] at hw
       have := h.Wt hw
-      simp only [gate, Bool.and_eq_false_iff, beq_eq_false_iff_ne] at this ⊢
+      simp only [gate_def, Bool.and_eq_false_iff, beq_eq_false_iff_ne] at this ⊢
       rcases this with (hx | hx) | hx
       · exact Or.inl (Or.inl (by omega))
       · exact Or.inl (Or.inr (by omega))
@@ -231,10 +248,14 @@ theorem upd_inv {s s' : State} (h : Inv s) {i : Nat} {t t' : Thread} (hi : s.thr
     · exact Or.inr (Or.inl (fun hh => h1 (hidle.mp hh)))
     · exact Or.inr (Or.inr h1)
 
-theorem alive_of_not_completed {s : State} (h : Inv s) (hw : waitCompleted s.td = false) : s.implAlive = true := by
+theorem alive_of_not_destroyed {s : State} (h : Inv s) (hw : s.td ≠ .destroyed) : s.implAlive = true := by
   cases hia : s.implAlive with
   | true => rfl
-  | false => have := h.IA hia; simp [hw] at this
+  | false => exact absurd (h.IA hia) hw
+
+theorem alive_of_not_completed {s : State} (h : Inv s) (hw : waitCompleted s.td = false) : s.implAlive = true := by
+  apply alive_of_not_destroyed h
+  intro hd; rw [hd] at hw; simp [waitCompleted] at hw
 
 theorem touch_id {s : State} (h : Inv s) (hw : waitCompleted s.td = false) : touch s = s := by
   simp [touch, alive_of_not_completed h hw]
@@ -250,6 +271,120 @@ macro "side" : tactic =>
     | rfl
     | (simp_all [kindOk, inside, countedRecv, countedConn, countedFlush, setT, notifyTd]; done)
     | (simp_all [kindOk, inside, countedRecv, countedConn, countedFlush, setT, notifyTd]; omega))
+
+theorem woken_parked {t : Thread} {a : Bool} (h : (woken t).pc = .parked a) : a = true ∧ ∃ b, t.pc = .parked b := by
+  cases t with
+  | mk k pc c => cases pc <;> simp_all [woken]
+
+theorem gate_no_inside {s : State} (h : Inv s) (hg : gate s = true) :
+    ∀ (j : Nat) (t : Thread), s.threads[j]? = some t → inside t.pc = false := by
+  intro j t hj
+  simp only [gate_def, Bool.and_eq_true, beq_iff_eq] at hg
+  obtain ⟨⟨h1, h2⟩, h3⟩ := hg
+  have c1 := countP_zero_get countedRecv (by rw [← h.CR]; exact h1) hj
+  have c2 := countP_zero_get countedConn (by rw [← h.CC]; exact h2) hj
+  have c3 := countP_zero_get countedFlush (by rw [← h.CF]; exact h3) hj
+  cases hi : inside t.pc with
+  | false => rfl
+  | true => rcases inside_counted (h.KP j t hj) hi with h' | h' | h' <;> simp_all
+
+/-- generic preservation lemma for a step that only flips `awake` flags (`wakeAll q`) and raises flags -/
+theorem wake_inv {s s' : State} (h : Inv s) (q : Thread → Bool) (hth : s'.threads = wakeAll q s.threads)
+    (hR : s'.activeReceives = s.activeReceives) (hC : s'.activeConnects = s.activeConnects)
+    (hF : s'.activeFlushes = s.activeFlushes) (htd : s'.td = s.td) (hia : s'.implAlive = s.implAlive)
+    (hio : s'.ioAlive = s.ioAlive) (hrun : s'.running = s.running) (hsj : s'.stopJoining = s.stopJoining)
+    (huaf : s'.uaf = s.uaf) (hlog : Ev.stopReturned ∈ s'.log → Ev.stopReturned ∈ s.log)
+    (hsh : s.shuttingDown = true → s'.shuttingDown = true)
+    (hrn : s'.recvNotified = true → s'.shuttingDown = true)
+    (hfs : s.td ≠ .idle → s'.shuttingDown = true)
+    (hWc : s'.shuttingDown = true → s.shuttingDown = true ∨ ∀ t, t.kind = .conn → q t = true)
+    (hWr : ∀ sid, s'.closed sid = true → s.closed sid = true ∨ ∀ t, t.kind = .recv sid → q t = true)
+    (hWn : s'.recvNotified = true → s.recvNotified = true ∨ ∀ t, isRecv t = true → q t = true) : Inv s' := by
+  have key : ∀ (j : Nat) (u : Thread), s'.threads[j]? = some u →
+      ∃ t, s.threads[j]? = some t ∧ u = (if q t = true then woken t else t) := by
+    intro j u hj; rw [hth] at hj; exact get_wakeAll hj
+  constructor
+  · intro j u hj; obtain ⟨t, ht, rfl⟩ := key j u hj
+    split
+    · rw [(woken_props t).2.2.1]; exact h.KP j t ht
+    · exact h.KP j t ht
+  · rw [hth, hR, countP_wakeAll _ (fun t => (woken_props t).2.2.2.2.1)]; exact h.CR
+  · rw [hth, hC, countP_wakeAll _ (fun t => (woken_props t).2.2.2.2.2.1)]; exact h.CC
+  · rw [hth, hF, countP_wakeAll _ (fun t => (woken_props t).2.2.2.2.2.2)]; exact h.CF
+  · intro hw j u hj; rw [htd] at hw; obtain ⟨t, ht, rfl⟩ := key j u hj
+    split
+    · rw [(woken_props t).2.2.2.1]; exact h.WC hw j t ht
+    · exact h.WC hw j t ht
+  · intro hf; rw [hia] at hf; rw [htd]; exact h.IA hf
+  · rw [huaf]; exact h.UAF
+  · intro hne; rw [htd] at hne; exact hfs hne
+  · exact hrn
+  · intro hs j u a hj hku hpu; obtain ⟨t, ht, rfl⟩ := key j u hj
+    split at hpu
+    · exact (woken_parked hpu).1
+    · rename_i hq
+      simp only [hq, if_false] at hku
+      rcases hWc hs with h1 | h1
+      · exact h.Wc h1 j t a ht hku hpu
+      · exact absurd (h1 t hku) hq
+  · intro j u a hj hku hcu hpu; obtain ⟨t, ht, rfl⟩ := key j u hj
+    split at hpu
+    · exact (woken_parked hpu).1
+    · rename_i hq
+      simp only [hq, if_false] at hku hcu
+      exact h.Wd j t a ht hku hcu hpu
+  · intro j u sid a hj hku hcs hpu; obtain ⟨t, ht, rfl⟩ := key j u hj
+    split at hpu
+    · exact (woken_parked hpu).1
+    · rename_i hq
+      simp only [hq, if_false] at hku
+      rcases hWr sid hcs with h1 | h1
+      · exact h.Wr j t sid a ht hku h1 hpu
+      · exact absurd (h1 t hku) hq
+  · intro hr j u a hj hru hpu; obtain ⟨t, ht, rfl⟩ := key j u hj
+    split at hpu
+    · exact (woken_parked hpu).1
+    · rename_i hq
+      simp only [hq, if_false] at hru
+      rcases hWn hr with h1 | h1
+      · exact h.Wn h1 j t a ht hru hpu
+      · exact absurd (h1 t hru) hq
+  · intro hw; rw [htd] at hw
+    have := h.Wt hw
+    simpa [gate_def, hR, hC, hF] using this
+  · intro hl; rw [hio]; exact h.IO1 (hlog hl)
+  · intro hr; rw [hrun] at hr; rw [hsj, hio, htd]; exact h.IO2 hr
+
+/-- generic preservation lemma for a step that leaves threads, counters and the wake-relevant flags alone -/
+theorem frame_inv {s s' : State} (h : Inv s) (hth : s'.threads = s.threads)
+    (hR : s'.activeReceives = s.activeReceives) (hC : s'.activeConnects = s.activeConnects)
+    (hF : s'.activeFlushes = s.activeFlushes) (hsh : s'.shuttingDown = s.shuttingDown) (hcl : s'.closed = s.closed)
+    (hrn : s'.recvNotified = s.recvNotified) (huaf : s'.uaf = false)
+    (hWC : waitCompleted s'.td = true → ∀ (j : Nat) (t : Thread), s.threads[j]? = some t → inside t.pc = false)
+    (hIA : s'.implAlive = false → s'.td = .destroyed)
+    (hFS : s'.td ≠ .idle → s.shuttingDown = true)
+    (hWt : s'.td = .waiting false ∨ s'.td = .ioWaiting false → gate s = false)
+    (hIO1 : Ev.stopReturned ∈ s'.log → s'.ioAlive = false)
+    (hIO2 : s'.running = false → s'.stopJoining = true ∨ s'.td ≠ .idle ∨ s'.ioAlive = false) : Inv s' := by
+  constructor
+  · intro j t hj; rw [hth] at hj; exact h.KP j t hj
+  · rw [hth, hR]; exact h.CR
+  · rw [hth, hC]; exact h.CC
+  · rw [hth, hF]; exact h.CF
+  · intro hw j t hj; rw [hth] at hj; exact hWC hw j t hj
+  · exact hIA
+  · exact huaf
+  · intro hne; rw [hsh]; exact hFS hne
+  · intro hr; rw [hrn] at hr; rw [hsh]; exact h.RN hr
+  · intro hs j t a hj; rw [hth] at hj; rw [hsh] at hs; exact h.Wc hs j t a hj
+  · intro j t a hj; rw [hth] at hj; exact h.Wd j t a hj
+  · intro j t sid a hj hk hc; rw [hth] at hj; rw [hcl] at hc; exact h.Wr j t sid a hj hk hc
+  · intro hr j t a hj; rw [hth] at hj; rw [hrn] at hr; exact h.Wn hr j t a hj
+  · intro hw; have := hWt hw; simpa [gate_def, hR, hC, hF] using this
+  · exact hIO1
+  · exact hIO2
+
+theorem touch_alive {s : State} (hal : s.implAlive = true) : touch s = s := by simp [touch, hal]
 
 theorem doEnter_inv {s : State} (h : Inv s) (i : Nat) (hok : ok s (.enter i) = true) : Inv (doEnter s i) := by
   have hw : waitCompleted s.td = false := by simpa [ok] using hok
@@ -361,7 +496,6 @@ theorem doConnRelock_inv {s : State} (h : Inv s) (i : Nat) : Inv (doConnRelock s
     refine upd_inv h hi rfl ?_ rfl ?_ ?_ ?_ rfl rfl rfl (Or.inr rfl) rfl rfl rfl rfl h.UAF ?_ ?_ ?_
     all_goals (first | (simp_all [kindOk, inside, countedRecv, countedConn, countedFlush]; done) | (simp_all [kindOk, inside, countedRecv, countedConn, countedFlush]; omega))
   · exact h
-
 theorem doFlushStep_inv {s : State} (h : Inv s) (i : Nat) (more : Bool) : Inv (doFlushStep s i more) := by
   unfold doFlushStep
   split
@@ -397,18 +531,64 @@ theorem doFlushStep_inv {s : State} (h : Inv s) (i : Nat) (more : Bool) : Inv (d
       have hpos : 0 < s.activeFlushes := by rw [h.CF]; exact countP_pos_of_get _ hi (by simp [countedFlush])
       refine upd_inv h hi rfl ?_ rfl ?_ ?_ ?_ rfl rfl rfl (Or.inr rfl) rfl rfl rfl rfl h.UAF ?_ ?_ ?_
       all_goals (first | (simp_all [kindOk, inside, countedRecv, countedConn, countedFlush]; done) | (simp_all [kindOk, inside, countedRecv, countedConn, countedFlush]; omega))
+    · -- fdtor: the flusher that ran the destructor in its callback unwinds and deletes Impl
+      simp only []
+      split
+      · rename_i htd
+        have hal : s.implAlive = true := alive_of_not_destroyed h (by rw [htd]; simp)
+        simp only [touch_alive hal]
+        cases k <;> simp [kindOk] at hkp
+        -- stage 1: the thread leaves the call
+        have h1 : Inv { s with threads := setT s.threads i { kind := .flush, pc := .done (.flushed false), completed := c } } := by
+          refine upd_inv h hi rfl ?_ rfl ?_ ?_ ?_ rfl rfl rfl (Or.inl ⟨rfl, Nat.le_refl _, Nat.le_refl _, Nat.le_refl _⟩)
+            rfl rfl rfl rfl h.UAF ?_ ?_ ?_
+          all_goals (simp_all [kindOk, inside, countedRecv, countedConn, countedFlush])
+        -- stage 2: Impl is deleted by the flush frame
+        have hwc : waitCompleted s.td = true := by rw [htd]; rfl
+        refine frame_inv h1 rfl rfl rfl rfl rfl rfl rfl h1.UAF (fun _ => h1.WC hwc) (fun _ => rfl) ?_ ?_ ?_ ?_
+        · intro _; exact h.FS (by rw [htd]; simp)
+        · intro hw; rcases hw with hw | hw <;> simp at hw
+        · intro hl
+          simp only [List.mem_append, List.mem_cons, List.mem_nil_iff, or_false] at hl
+          rcases hl with hl | hl | hl
+          · exact h.IO1 hl
+          · cases hl
+          · cases hl
+        · intro _; exact Or.inr (Or.inl (by simp))
+      · exact h
   · exact h
 
-theorem doIoConnDone_inv {s : State} (h : Inv s) (i : Nat) : Inv (doIoConnDone s i) := by
+theorem doFlushSelfDestruct_inv {s : State} (h : Inv s) (i : Nat) : Inv (doFlushSelfDestruct s i) := by
+  unfold doFlushSelfDestruct
+  split
+  · rename_i t hi
+    split
+    · rename_i hpc htd hdt
+      obtain ⟨k, pc, c⟩ := t
+      simp only at hpc; subst hpc
+      have hkp := h.KP i _ hi
+      have hw := not_completed_of_inside h hi (by simp [inside])
+      simp only [touch_id h hw]
+      cases k <;> simp [kindOk] at hkp
+      have hpos : 0 < s.activeFlushes := by rw [h.CF]; exact countP_pos_of_get _ hi (by simp [countedFlush])
+      refine upd_inv h hi rfl ?_ rfl ?_ ?_ ?_ rfl rfl rfl (Or.inr rfl) rfl rfl rfl rfl h.UAF ?_ ?_ ?_
+      all_goals (first | (simp_all [kindOk, inside, countedRecv, countedConn, countedFlush]; done) | (simp_all [kindOk, inside, countedRecv, countedConn, countedFlush]; omega))
+    · exact h
+  · exact h
+
+theorem doIoConnDone_inv {s : State} (h : Inv s) (hio : s.ioAlive = true → s.implAlive = true) (i : Nat) : Inv (doIoConnDone s i) := by
   unfold doIoConnDone
   split
-  · split
+  · rename_i hf
+    have hal := hio (by simp only [ioFree, Bool.and_eq_true] at hf; exact hf.1)
+    split
     · rename_i t hi
       obtain ⟨k, pc, c⟩ := t
       have hkp := h.KP i _ hi
       split
       · rename_i a hk hpc
         simp only at hk hpc; subst hk; subst hpc
+        simp only [touch_alive hal]
         refine upd_inv h hi rfl ?_ rfl ?_ ?_ ?_ rfl rfl rfl (Or.inl ⟨rfl, Nat.le_refl _, Nat.le_refl _, Nat.le_refl _⟩)
           rfl rfl rfl rfl h.UAF ?_ ?_ ?_
         all_goals (first | (simp_all [kindOk, inside, countedRecv, countedConn, countedFlush]; done) | skip)
@@ -417,124 +597,14 @@ theorem doIoConnDone_inv {s : State} (h : Inv s) (i : Nat) : Inv (doIoConnDone s
     · exact h
   · exact h
 
-theorem woken_parked {t : Thread} {a : Bool} (h : (woken t).pc = .parked a) : a = true ∧ ∃ b, t.pc = .parked b := by
-  cases t with
-  | mk k pc c => cases pc <;> simp_all [woken]
-
-theorem gate_no_inside {s : State} (h : Inv s) (hg : gate s = true) :
-    ∀ (j : Nat) (t : Thread), s.threads[j]? = some t → inside t.pc = false := by
-  intro j t hj
-  simp only [gate, Bool.and_eq_true, beq_iff_eq] at hg
-  obtain ⟨⟨h1, h2⟩, h3⟩ := hg
-  have c1 := countP_zero_get countedRecv (by rw [← h.CR]; exact h1) hj
-  have c2 := countP_zero_get countedConn (by rw [← h.CC]; exact h2) hj
-  have c3 := countP_zero_get countedFlush (by rw [← h.CF]; exact h3) hj
-  cases hi : inside t.pc with
-  | false => rfl
-  | true => rcases inside_counted (h.KP j t hj) hi with h' | h' | h' <;> simp_all
-
-/-- generic preservation lemma for a step that only flips `awake` flags (`wakeAll q`) and raises flags -/
-theorem wake_inv {s s' : State} (h : Inv s) (q : Thread → Bool) (hth : s'.threads = wakeAll q s.threads)
-    (hR : s'.activeReceives = s.activeReceives) (hC : s'.activeConnects = s.activeConnects)
-    (hF : s'.activeFlushes = s.activeFlushes) (htd : s'.td = s.td) (hia : s'.implAlive = s.implAlive)
-    (hio : s'.ioAlive = s.ioAlive) (hrun : s'.running = s.running) (hsj : s'.stopJoining = s.stopJoining)
-    (huaf : s'.uaf = s.uaf) (hlog : Ev.stopReturned ∈ s'.log → Ev.stopReturned ∈ s.log)
-    (hsh : s.shuttingDown = true → s'.shuttingDown = true)
-    (hrn : s'.recvNotified = true → s'.shuttingDown = true)
-    (hfs : s.td ≠ .idle → s'.shuttingDown = true)
-    (hWc : s'.shuttingDown = true → s.shuttingDown = true ∨ ∀ t, t.kind = .conn → q t = true)
-    (hWr : ∀ sid, s'.closed sid = true → s.closed sid = true ∨ ∀ t, t.kind = .recv sid → q t = true)
-    (hWn : s'.recvNotified = true → s.recvNotified = true ∨ ∀ t, isRecv t = true → q t = true) : Inv s' := by
-  have key : ∀ (j : Nat) (u : Thread), s'.threads[j]? = some u →
-      ∃ t, s.threads[j]? = some t ∧ u = (if q t = true then woken t else t) := by
-    intro j u hj; rw [hth] at hj; exact get_wakeAll hj
-  constructor
-  · intro j u hj; obtain ⟨t, ht, rfl⟩ := key j u hj
-    split
-    · rw [(woken_props t).2.2.1]; exact h.KP j t ht
-    · exact h.KP j t ht
-  · rw [hth, hR, countP_wakeAll _ (fun t => (woken_props t).2.2.2.2.1)]; exact h.CR
-  · rw [hth, hC, countP_wakeAll _ (fun t => (woken_props t).2.2.2.2.2.1)]; exact h.CC
-  · rw [hth, hF, countP_wakeAll _ (fun t => (woken_props t).2.2.2.2.2.2)]; exact h.CF
-  · intro hw j u hj; rw [htd] at hw; obtain ⟨t, ht, rfl⟩ := key j u hj
-    split
-    · rw [(woken_props t).2.2.2.1]; exact h.WC hw j t ht
-    · exact h.WC hw j t ht
-  · intro hf; rw [hia] at hf; rw [htd]; exact h.IA hf
-  · rw [huaf]; exact h.UAF
-  · intro hne; rw [htd] at hne; exact hfs hne
-  · exact hrn
-  · intro hs j u a hj hku hpu; obtain ⟨t, ht, rfl⟩ := key j u hj
-    split at hpu
-    · exact (woken_parked hpu).1
-    · rename_i hq
-      simp only [hq, if_false] at hku
-      rcases hWc hs with h1 | h1
-      · exact h.Wc h1 j t a ht hku hpu
-      · exact absurd (h1 t hku) hq
-  · intro j u a hj hku hcu hpu; obtain ⟨t, ht, rfl⟩ := key j u hj
-    split at hpu
-    · exact (woken_parked hpu).1
-    · rename_i hq
-      simp only [hq, if_false] at hku hcu
-      exact h.Wd j t a ht hku hcu hpu
-  · intro j u sid a hj hku hcs hpu; obtain ⟨t, ht, rfl⟩ := key j u hj
-    split at hpu
-    · exact (woken_parked hpu).1
-    · rename_i hq
-      simp only [hq, if_false] at hku
-      rcases hWr sid hcs with h1 | h1
-      · exact h.Wr j t sid a ht hku h1 hpu
-      · exact absurd (h1 t hku) hq
-  · intro hr j u a hj hru hpu; obtain ⟨t, ht, rfl⟩ := key j u hj
-    split at hpu
-    · exact (woken_parked hpu).1
-    · rename_i hq
-      simp only [hq, if_false] at hru
-      rcases hWn hr with h1 | h1
-      · exact h.Wn h1 j t a ht hru hpu
-      · exact absurd (h1 t hru) hq
-  · intro hw; rw [htd] at hw
-    have := h.Wt hw
-    simpa [gate, hR, hC, hF] using this
-  · intro hl; rw [hio]; exact h.IO1 (hlog hl)
-  · intro hr; rw [hrun] at hr; rw [hsj, hio, htd]; exact h.IO2 hr
-
-/-- generic preservation lemma for a step that leaves threads, counters and the wake-relevant flags alone -/
-theorem frame_inv {s s' : State} (h : Inv s) (hth : s'.threads = s.threads)
-    (hR : s'.activeReceives = s.activeReceives) (hC : s'.activeConnects = s.activeConnects)
-    (hF : s'.activeFlushes = s.activeFlushes) (hsh : s'.shuttingDown = s.shuttingDown) (hcl : s'.closed = s.closed)
-    (hrn : s'.recvNotified = s.recvNotified) (huaf : s'.uaf = false)
-    (hWC : waitCompleted s'.td = true → ∀ (j : Nat) (t : Thread), s.threads[j]? = some t → inside t.pc = false)
-    (hIA : s'.implAlive = false → waitCompleted s'.td = true)
-    (hFS : s'.td ≠ .idle → s.shuttingDown = true)
-    (hWt : s'.td = .waiting false ∨ s'.td = .ioWaiting false → gate s = false)
-    (hIO1 : Ev.stopReturned ∈ s'.log → s'.ioAlive = false)
-    (hIO2 : s'.running = false → s'.stopJoining = true ∨ s'.td ≠ .idle ∨ s'.ioAlive = false) : Inv s' := by
-  constructor
-  · intro j t hj; rw [hth] at hj; exact h.KP j t hj
-  · rw [hth, hR]; exact h.CR
-  · rw [hth, hC]; exact h.CC
-  · rw [hth, hF]; exact h.CF
-  · intro hw j t hj; rw [hth] at hj; exact hWC hw j t hj
-  · exact hIA
-  · exact huaf
-  · intro hne; rw [hsh]; exact hFS hne
-  · intro hr; rw [hrn] at hr; rw [hsh]; exact h.RN hr
-  · intro hs j t a hj; rw [hth] at hj; rw [hsh] at hs; exact h.Wc hs j t a hj
-  · intro j t a hj; rw [hth] at hj; exact h.Wd j t a hj
-  · intro j t sid a hj hk hc; rw [hth] at hj; rw [hcl] at hc; exact h.Wr j t sid a hj hk hc
-  · intro hr j t a hj; rw [hth] at hj; rw [hrn] at hr; exact h.Wn hr j t a hj
-  · intro hw; have := hWt hw; simpa [gate, hR, hC, hF] using this
-  · exact hIO1
-  · exact hIO2
-
-theorem closeSess_inv {s : State} (h : Inv s) (sid : Nat) : Inv (closeSess s sid) := by
+theorem closeSess_inv {s : State} (h : Inv s) (hal : s.implAlive = true) (sid : Nat) : Inv (closeSess s sid) := by
+  unfold closeSess
+  simp only [touch_alive hal]
   refine wake_inv h (isRecvOf sid) rfl rfl rfl rfl rfl rfl rfl rfl rfl rfl ?_ (fun hs => hs) h.RN h.FS
     (fun hs => Or.inl hs) ?_ (fun hr => Or.inl hr)
-  · intro hl; simpa [closeSess] using hl
+  · intro hl; simpa using hl
   · intro sid' hc
-    simp only [closeSess] at hc
+    simp only at hc
     by_cases hs : sid' = sid
     · subst hs; right; intro t hk; simp [isRecvOf, hk]
     · left; simpa [hs] using hc
@@ -549,15 +619,16 @@ theorem waitOut_inv {s : State} (h : Inv s) (nr : Bool) : Inv (waitOutEntry s nr
     · exact Or.inl hr
     · right; intro t ht; simp [hr, ht]
 
-theorem waitCompleted_cases (td : Td) : waitCompleted td = true ↔ td = .waited ∨ td = .ioReleased ∨ td = .destroyed := by
+theorem waitCompleted_cases (td : Td) :
+    waitCompleted td = true ↔ td = .waited ∨ td = .ioReleased ∨ td = .flushOwned ∨ td = .destroyed := by
   cases td <;> simp [waitCompleted]
 
 /-- after an entry section of `teardownWaitOut`: either the gate is already open or the thread goes to sleep -/
 theorem gated_inv {s : State} (h : Inv s) (hnc : waitCompleted s.td = false) (hsh : s.shuttingDown = true)
-    (done sleep : Td) (hd : waitCompleted done = true) (hd' : done ≠ .idle) (hs : waitCompleted sleep = false) (hs' : sleep ≠ .idle)
+    (done sleep : Td) (hd : waitCompleted done = true) (hd' : done ≠ .idle) (hdd : done ≠ .destroyed)
+    (hs : waitCompleted sleep = false) (hs' : sleep ≠ .idle)
     (hsl : sleep = .waiting false ∨ sleep = .ioWaiting false ∨ (sleep ≠ .waiting false ∧ sleep ≠ .ioWaiting false))
-    (s' : State) (hs'eq : s' = if gate s = true then { s with td := done } else { s with td := sleep })
-    (hio2 : s.running = false → s.stopJoining = true ∨ True ∨ s.ioAlive = false) : Inv s' := by
+    (s' : State) (hs'eq : s' = if gate s = true then { s with td := done } else { s with td := sleep }) : Inv s' := by
   have hal := alive_of_not_completed h hnc
   subst hs'eq
   split
@@ -573,22 +644,26 @@ theorem gated_inv {s : State} (h : Inv s) (hnc : waitCompleted s.td = false) (hs
     · intro _; simpa using hg
     · intro _; exact Or.inr (Or.inl hs')
 
-theorem doIoCloseSess_inv {s : State} (h : Inv s) (sid : Nat) : Inv (doIoCloseSess s sid) := by
-  unfold doIoCloseSess; split
-  · exact closeSess_inv h sid
-  · exact h
-
 theorem ioFree_alive {s : State} (hf : ioFree s = true) : s.ioAlive = true := by
   simp only [ioFree, Bool.and_eq_true] at hf; exact hf.1
 
-theorem doIoDrain_inv {s : State} (h : Inv s) (sid : Option Nat) : Inv (doIoDrain s sid) := by
+theorem doIoCloseSess_inv {s : State} (h : Inv s) (hio : s.ioAlive = true → s.implAlive = true) (sid : Nat) :
+    Inv (doIoCloseSess s sid) := by
+  unfold doIoCloseSess; split
+  · rename_i hc
+    simp only [Bool.and_eq_true] at hc
+    exact closeSess_inv h (hio (ioFree_alive hc.1)) sid
+  · exact h
+
+theorem doIoDrain_inv {s : State} (h : Inv s) (hio : s.ioAlive = true → s.implAlive = true) (sid : Option Nat) :
+    Inv (doIoDrain s sid) := by
   unfold doIoDrain
   split
   · rename_i hc
     simp only [Bool.and_eq_true, Bool.not_eq_true'] at hc
     cases sid with
     | some sid => simp only []; split
-                  · exact closeSess_inv h sid
+                  · exact closeSess_inv h (hio (ioFree_alive hc.1)) sid
                   · exact h
     | none =>
       simp only []
@@ -605,12 +680,30 @@ theorem doIoDrain_inv {s : State} (h : Inv s) (sid : Option Nat) : Inv (doIoDrai
       · exact h
   · exact h
 
+theorem doIoSyncCall_inv {s : State} (h : Inv s) (hio : s.ioAlive = true → s.implAlive = true) (op : SyncOp) :
+    Inv (doIoSyncCall s op) := by
+  unfold doIoSyncCall
+  split
+  · rename_i hf
+    have hal := hio (ioFree_alive hf)
+    simp only [guard_ok, Bool.true_or, if_true, touch_alive hal]
+    refine frame_inv h rfl rfl rfl rfl rfl rfl rfl h.UAF h.WC h.IA h.FS h.Wt ?_ h.IO2
+    intro hl
+    simp only [List.mem_append, List.mem_singleton] at hl
+    rcases hl with hl | hl
+    · exact h.IO1 hl
+    · cases hl
+  · exact h
+
 theorem doStopCall_inv {s : State} (h : Inv s) (hok : ok s .stopCall = true) : Inv (doStopCall s) := by
-  have hidle : s.td = .idle := by simpa [ok] using hok
+  have hidle : s.td = .idle := by
+    simp only [ok, Bool.and_eq_true, beq_iff_eq] at hok; exact hok.1
+  have hal : s.implAlive = true := alive_of_not_destroyed h (by rw [hidle]; simp)
   unfold doStopCall
   split
   · exact h
   · rename_i hsj
+    simp only [touch_alive hal]
     split
     · refine frame_inv h rfl rfl rfl rfl rfl rfl rfl h.UAF h.WC h.IA h.FS h.Wt h.IO1 (fun _ => Or.inl rfl)
     · rename_i hr
@@ -622,11 +715,12 @@ theorem doStopCall_inv {s : State} (h : Inv s) (hok : ok s .stopCall = true) : I
         · exact h1
       refine frame_inv h rfl rfl rfl rfl rfl rfl rfl h.UAF h.WC h.IA h.FS h.Wt (fun _ => hio) h.IO2
 
-theorem doStopJoin_inv {s : State} (h : Inv s) : Inv (doStopJoin s) := by
+theorem doStopJoin_inv {s : State} (h : Inv s) (hsj : s.stopJoining = true → s.implAlive = true) : Inv (doStopJoin s) := by
   unfold doStopJoin
   split
   · rename_i hc
     simp only [Bool.and_eq_true, Bool.not_eq_true'] at hc
+    simp only [touch_alive (hsj hc.1)]
     refine frame_inv h rfl rfl rfl rfl rfl rfl rfl h.UAF h.WC h.IA h.FS h.Wt (fun _ => hc.2) (fun _ => Or.inr (Or.inr hc.2))
   · exact h
 
@@ -635,6 +729,10 @@ theorem waitOut_fields (s : State) (nr : Bool) :
     (waitOutEntry s nr).ioAlive = s.ioAlive ∧ (waitOutEntry s nr).stopJoining = s.stopJoining ∧
     (waitOutEntry s nr).log = s.log ∧ (waitOutEntry s nr).implAlive = s.implAlive := by
   simp [waitOutEntry]
+
+/-- a ghost-only update keeps the invariant -/
+theorem path_inv {s : State} (h : Inv s) (p : Path) : Inv { s with path := p } :=
+  frame_inv h rfl rfl rfl rfl rfl rfl rfl h.UAF h.WC h.IA h.FS h.Wt h.IO1 h.IO2
 
 theorem doTdBegin_inv {s : State} (h : Inv s) : Inv (doTdBegin s) := by
   unfold doTdBegin
@@ -647,15 +745,15 @@ theorem doTdBegin_inv {s : State} (h : Inv s) : Inv (doTdBegin s) := by
       refine frame_inv h1 rfl rfl rfl rfl rfl rfl rfl h1.UAF ?_ ?_ (fun _ => hf.2.1) ?_ ?_ ?_
       · intro hw; simp [waitCompleted] at hw
       · intro hf'; simp only [] at hf'; rw [hf.2.2.2.2.2.2] at hf'
-        have := h.IA hf'; simp [htd, waitCompleted] at this
+        have := h.IA hf'; rw [htd] at this; cases this
       · intro hw; rcases hw with hw | hw <;> simp at hw
       · intro hl; simp only [] at hl ⊢; rw [hf.2.2.2.2.2.1] at hl; rw [hf.2.2.2.1]; exact h.IO1 hl
       · intro _; exact Or.inr (Or.inl (by simp))
-    · -- ALREADY-STOPPED: teardownWaitOut(true)
-      have h1 := waitOut_inv h true
-      have hf := waitOut_fields s true
-      exact gated_inv h1 (by rw [hf.1, htd]; rfl) hf.2.1 .waited (.waiting false) rfl (by simp) rfl (by simp)
-        (Or.inl rfl) _ rfl (fun _ => Or.inr (Or.inl trivial))
+    · -- ALREADY-STOPPED: teardownWaitOut(<as written>)
+      have h1 := path_inv (waitOut_inv h nrStopped) .stopped
+      have hf := waitOut_fields s nrStopped
+      exact gated_inv h1 (by simp only []; rw [hf.1, htd]; rfl) hf.2.1 .waited (.waiting false) rfl (by simp) (by simp) rfl (by simp)
+        (Or.inl rfl) _ rfl
   · exact h
 
 theorem doTdStop_inv {s : State} (h : Inv s) : Inv (doTdStop s) := by
@@ -666,12 +764,12 @@ theorem doTdStop_inv {s : State} (h : Inv s) : Inv (doTdStop s) := by
     split
     · refine frame_inv h rfl rfl rfl rfl rfl rfl rfl h.UAF ?_ ?_ (fun _ => hsh) ?_ h.IO1 (fun _ => Or.inr (Or.inl (by simp)))
       · intro hw; simp [waitCompleted] at hw
-      · intro hf; have := h.IA hf; simp [htd, waitCompleted] at this
+      · intro hf; have := h.IA hf; rw [htd] at this; cases this
       · intro hw; rcases hw with hw | hw <;> simp at hw
-    · have h1 := waitOut_inv h false
-      have hf := waitOut_fields s false
-      exact gated_inv h1 (by rw [hf.1, htd]; rfl) hf.2.1 .waited (.waiting false) rfl (by simp) rfl (by simp)
-        (Or.inl rfl) _ rfl (fun _ => Or.inr (Or.inl trivial))
+    · have h1 := waitOut_inv h nrNormal
+      have hf := waitOut_fields s nrNormal
+      exact gated_inv h1 (by rw [hf.1, htd]; rfl) hf.2.1 .waited (.waiting false) rfl (by simp) (by simp) rfl (by simp)
+        (Or.inl rfl) _ rfl
   · exact h
 
 theorem doTdJoined_inv {s : State} (h : Inv s) : Inv (doTdJoined s) := by
@@ -680,10 +778,10 @@ theorem doTdJoined_inv {s : State} (h : Inv s) : Inv (doTdJoined s) := by
   · rename_i htd
     split
     · exact h
-    · have h1 := waitOut_inv h false
-      have hf := waitOut_fields s false
-      exact gated_inv h1 (by rw [hf.1, htd]; rfl) hf.2.1 .waited (.waiting false) rfl (by simp) rfl (by simp)
-        (Or.inl rfl) _ rfl (fun _ => Or.inr (Or.inl trivial))
+    · have h1 := waitOut_inv h nrNormal
+      have hf := waitOut_fields s nrNormal
+      exact gated_inv h1 (by rw [hf.1, htd]; rfl) hf.2.1 .waited (.waiting false) rfl (by simp) (by simp) rfl (by simp)
+        (Or.inl rfl) _ rfl
   · exact h
 
 theorem doTdWake_inv {s : State} (h : Inv s) : Inv (doTdWake s) := by
@@ -691,8 +789,8 @@ theorem doTdWake_inv {s : State} (h : Inv s) : Inv (doTdWake s) := by
   split
   · rename_i a htd
     have hsh := h.FS (by simp [htd])
-    exact gated_inv h (by rw [htd]; rfl) hsh .waited (.waiting false) rfl (by simp) rfl (by simp)
-      (Or.inl rfl) _ rfl (fun _ => Or.inr (Or.inl trivial))
+    exact gated_inv h (by rw [htd]; rfl) hsh .waited (.waiting false) rfl (by simp) (by simp) rfl (by simp)
+      (Or.inl rfl) _ rfl
   · rename_i a htd
     have hsh := h.FS (by simp [htd])
     have hal := alive_of_not_completed h (by rw [htd]; rfl)
@@ -717,7 +815,7 @@ theorem doTdWake_inv {s : State} (h : Inv s) : Inv (doTdWake s) := by
 theorem doTdDestroy_inv {s : State} (h : Inv s) : Inv (doTdDestroy s) := by
   unfold doTdDestroy
   split
-  · rename_i htd
+  · rename_i htd hdt
     have hwc : waitCompleted s.td = true := by simp [htd, waitCompleted]
     have hsh := h.FS (by simp [htd])
     refine frame_inv h rfl rfl rfl rfl rfl rfl rfl h.UAF (fun _ => h.WC hwc) (fun _ => rfl) (fun _ => hsh) ?_ ?_ ?_
@@ -729,54 +827,743 @@ theorem doTdDestroy_inv {s : State} (h : Inv s) : Inv (doTdDestroy s) := by
     · intro _; exact Or.inr (Or.inl (by simp))
   · exact h
 
+theorem doTdOrphan_inv {s : State} (h : Inv s) : Inv (doTdOrphan s) := by
+  unfold doTdOrphan
+  split
+  · rename_i i htd hdt
+    have hwc : waitCompleted s.td = true := by simp [htd, waitCompleted]
+    have hsh := h.FS (by simp [htd])
+    refine frame_inv h rfl rfl rfl rfl rfl rfl rfl h.UAF (fun _ => h.WC hwc) ?_ (fun _ => hsh) ?_ h.IO1 ?_
+    · intro hf; have := h.IA hf; rw [htd] at this; cases this
+    · intro hw; rcases hw with hw | hw <;> simp at hw
+    · intro _; exact Or.inr (Or.inl (by simp))
+  · exact h
+
 theorem doIoSelfDestruct_inv {s : State} (h : Inv s) : Inv (doIoSelfDestruct s) := by
   unfold doIoSelfDestruct
   split
-  · rename_i htd
+  · rename_i htd hdt
     split
-    · have h1 := waitOut_inv h true
-      have hf := waitOut_fields s true
-      have hal := alive_of_not_completed h1 (by rw [hf.1, htd]; rfl)
-      simp only []
+    · simp only [ioBranch_ok, Bool.not_true, Bool.false_and, Bool.false_eq_true, if_false]
+      have h1 := path_inv (waitOut_inv h nrIo) .io
+      have hf := waitOut_fields s nrIo
+      have hal : s.implAlive = true := alive_of_not_completed h (by rw [htd]; rfl)
       split
       · rename_i hg
         refine frame_inv h1 rfl rfl rfl rfl rfl rfl rfl h1.UAF (fun _ => gate_no_inside h1 hg) ?_ (fun _ => hf.2.1) ?_ h1.IO1
           (fun _ => Or.inr (Or.inl (by simp)))
-        · intro hf'; simp [hal] at hf'
+        · intro hf'; simp only [] at hf'; rw [hf.2.2.2.2.2.2, hal] at hf'; cases hf'
         · intro hw; rcases hw with hw | hw <;> simp at hw
       · rename_i hg
         refine frame_inv h1 rfl rfl rfl rfl rfl rfl rfl h1.UAF ?_ ?_ (fun _ => hf.2.1) ?_ h1.IO1
           (fun _ => Or.inr (Or.inl (by simp)))
         · intro hw; simp [waitCompleted] at hw
-        · intro hf'; simp [hal] at hf'
+        · intro hf'; simp only [] at hf'; rw [hf.2.2.2.2.2.2, hal] at hf'; cases hf'
         · intro _; simpa using hg
     · exact h
   · exact h
 
-theorem step_inv {s : State} (h : Inv s) (st : Step) (hok : ok s st = true) : Inv (step s st) := by
-  cases st with
-  | enter i => exact doEnter_inv h i hok
-  | wake i t => exact doWake_inv h i t
-  | connClose i => exact doConnClose_inv h i
-  | connRelock i => exact doConnRelock_inv h i
-  | flushStep i m => exact doFlushStep_inv h i m
-  | ioCloseSess sid => exact doIoCloseSess_inv h sid
-  | ioConnDone i => exact doIoConnDone_inv h i
-  | ioDrain sid => exact doIoDrain_inv h sid
-  | stopCall => exact doStopCall_inv h hok
-  | stopJoin => exact doStopJoin_inv h
-  | tdBegin => exact doTdBegin_inv h
-  | tdStop => exact doTdStop_inv h
-  | tdJoined => exact doTdJoined_inv h
-  | tdWake => exact doTdWake_inv h
-  | tdDestroy => exact doTdDestroy_inv h
-  | ioSelfDestruct => exact doIoSelfDestruct_inv h
+/-! ## second group of invariants: who runs the destructor, the I/O thread's life, the teardown path, close callbacks -/
 
-theorem run_inv : ∀ (steps : List Step) (s : State), Inv s → Disciplined s steps → Inv (run s steps) := by
+/-- the destructor's program counter without the `awake` flag -/
+def shape : Td → Nat
+  | .idle => 0 | .fenced => 1 | .joining => 2 | .waiting _ => 3 | .waited => 4 | .ioWaiting _ => 5 | .ioReleased => 6
+  | .flushOwned => 7 | .destroyed => 8
+
+@[simp] theorem shape_notifyTd (td : Td) : shape (notifyTd td) = shape td := by cases td <;> rfl
+
+/-- thread `j` is a flusher that ran the destructor inside its data callback -/
+def fdAt (l : List Thread) (j : Nat) : Bool := match l[j]? with | some t => t.pc == .fdtor | none => false
+
+theorem get_set_self {l : List Thread} {i : Nat} {t x : Thread} (h : l[i]? = some t) : (l.set i x)[i]? = some x :=
+  List.getElem?_set_self (lt_of_get h)
+
+theorem fdAt_set_self {l : List Thread} {i : Nat} {t x : Thread} (hi : l[i]? = some t) :
+    fdAt (l.set i x) i = (x.pc == .fdtor) := by
+  unfold fdAt; rw [get_set_self hi]
+
+theorem fdAt_set_ne {l : List Thread} {i j : Nat} {x : Thread} (h : j ≠ i) : fdAt (l.set i x) j = fdAt l j := by
+  unfold fdAt; rw [List.getElem?_set_ne (Ne.symm h)]
+
+@[simp] theorem fdAt_wakeAll (q : Thread → Bool) (l : List Thread) (j : Nat) : fdAt (wakeAll q l) j = fdAt l j := by
+  unfold fdAt wakeAll
+  rw [List.getElem?_map]
+  cases h : l[j]? with
+  | none => rfl
+  | some t =>
+    simp only [Option.map_some]
+    cases hp : t.pc <;> simp [hp]
+    split <;> first | rfl | (simp [hp]; done) | (rename_i a _; cases a <;> rfl)
+
+theorem fdAt_of_get {l : List Thread} {j : Nat} {t : Thread} (h : l[j]? = some t) : fdAt l j = (t.pc == .fdtor) := by
+  unfold fdAt; rw [h]
+
+structure Inv2 (s : State) : Prop where
+  SB : s.ioSelfBlock = false
+  SJ : s.stopJoining = true → shape s.td = 0 ∧ s.dtorOn = none ∧ s.running = false
+  FR : shape s.td = 1 → s.running = true
+  JR : shape s.td = 2 → s.running = false
+  DIO : shape s.td = 3 ∨ shape s.td = 4 ∨ shape s.td = 7 ∨ shape s.td = 8 → s.ioAlive = false
+  IOA : shape s.td = 5 ∨ shape s.td = 6 → s.ioAlive = true ∧ s.dtorOn = none
+  IOR : shape s.td = 6 → s.running = false
+  DT1 : ∀ j, fdAt s.threads j = true → s.dtorOn = some j
+  DT2 : ∀ i, s.dtorOn = some i → shape s.td ≠ 8 → fdAt s.threads i = true
+  DT3 : shape s.td = 7 → s.dtorOn ≠ none
+  PN : s.path = .stopped ∨ s.path = .io → s.recvNotified = true
+  PI : shape s.td = 5 → s.path = .io
+  SD : s.shuttingDown = true → shape s.td ≠ 0
+  CL : ∀ sid, s.log.count (.cbClose sid) ≤ 1 ∧ (sid ∈ s.live → s.log.count (.cbClose sid) = 0)
+
+theorem Inv2_mk (threads : List Thread) (live : List Nat) (h : ∀ t ∈ threads, t.pc = .notStarted) : Inv2 (mk threads live) := by
+  constructor <;> simp [mk, shape]
+  intro j
+  unfold fdAt
+  split
+  · rename_i t ht
+    have := h t (List.mem_iff_getElem?.mpr ⟨j, ht⟩)
+    simp [this]
+  · rfl
+
+/-- a step of ONE application thread that is not (and does not become) the destructor-running flusher -/
+theorem upd_inv2 {s s' : State} (h : Inv2 s) {i : Nat} {t t' : Thread} (hi : s.threads[i]? = some t)
+    (hth : s'.threads = s.threads.set i t') (hpc : t.pc ≠ .fdtor) (hpc' : t'.pc ≠ .fdtor)
+    (hsh : s'.shuttingDown = s.shuttingDown) (htd : shape s'.td = shape s.td) (hrun : s'.running = s.running)
+    (hio : s'.ioAlive = s.ioAlive) (hsj : s'.stopJoining = s.stopJoining) (hdt : s'.dtorOn = s.dtorOn)
+    (hsb : s'.ioSelfBlock = s.ioSelfBlock) (hrn : s'.recvNotified = s.recvNotified) (hpa : s'.path = s.path)
+    (hlive : s'.live = s.live) (hlog : ∀ sid, s'.log.count (.cbClose sid) = s.log.count (.cbClose sid)) : Inv2 s' := by
+  have hfi : fdAt s.threads i = false := by rw [fdAt_of_get hi]; simpa using hpc
+  have hfi' : fdAt s'.threads i = false := by rw [hth, fdAt_set_self hi]; simpa using hpc'
+  constructor
+  · rw [hsb]; exact h.SB
+  · rw [hsj, htd, hdt, hrun]; exact h.SJ
+  · rw [htd, hrun]; exact h.FR
+  · rw [htd, hrun]; exact h.JR
+  · rw [htd, hio]; exact h.DIO
+  · rw [htd, hio, hdt]; exact h.IOA
+  · rw [htd, hrun]; exact h.IOR
+  · intro j hj
+    rw [hdt]
+    by_cases hji : j = i
+    · subst hji; rw [hfi'] at hj; cases hj
+    · rw [hth, fdAt_set_ne hji] at hj; exact h.DT1 j hj
+  · intro k hk hne
+    rw [hdt] at hk; rw [htd] at hne
+    have := h.DT2 k hk hne
+    by_cases hki : k = i
+    · subst hki; rw [hfi] at this; cases this
+    · rw [hth, fdAt_set_ne hki]; exact this
+  · rw [htd, hdt]; exact h.DT3
+  · rw [hpa, hrn]; exact h.PN
+  · rw [htd, hpa]; exact h.PI
+  · rw [hsh, htd]; exact h.SD
+  · intro sid; rw [hlog sid, hlive]; exact h.CL sid
+
+macro "u2" : tactic =>
+  `(tactic| first
+    | rfl
+    | (simp; done)
+    | (intro sid; simp [List.count_append, List.count_cons]; done))
+
+theorem doEnter_inv2 {s : State} (h : Inv2 s) (i : Nat) : Inv2 (doEnter s i) := by
+  unfold doEnter
+  split
+  · rename_i t hi
+    split
+    · rename_i hpc
+      have hne : t.pc ≠ .fdtor := by rw [hpc]; simp
+      cases hal : s.implAlive <;> simp only [touch, hal, if_true, if_false, Bool.false_eq_true] <;> (repeat' split) <;>
+        exact upd_inv2 h hi rfl hne (by simp) rfl rfl rfl rfl rfl rfl rfl rfl rfl rfl (by u2)
+    · exact h
+  · exact h
+
+/-- a step that leaves every field the second group of invariants speaks about alone -/
+theorem inv2_congr {s s' : State} (h : Inv2 s) (hth : s'.threads = s.threads) (htd : s'.td = s.td)
+    (hsh : s'.shuttingDown = s.shuttingDown) (hrun : s'.running = s.running)
+    (hio : s'.ioAlive = s.ioAlive) (hsj : s'.stopJoining = s.stopJoining) (hdt : s'.dtorOn = s.dtorOn)
+    (hsb : s'.ioSelfBlock = s.ioSelfBlock) (hrn : s'.recvNotified = s.recvNotified) (hpa : s'.path = s.path)
+    (hlive : s'.live = s.live) (hlog : ∀ sid, s'.log.count (.cbClose sid) = s.log.count (.cbClose sid)) : Inv2 s' := by
+  constructor
+  · rw [hsb]; exact h.SB
+  · rw [hsj, htd, hdt, hrun]; exact h.SJ
+  · rw [htd, hrun]; exact h.FR
+  · rw [htd, hrun]; exact h.JR
+  · rw [htd, hio]; exact h.DIO
+  · rw [htd, hio, hdt]; exact h.IOA
+  · rw [htd, hrun]; exact h.IOR
+  · rw [hth, hdt]; exact h.DT1
+  · rw [hth, hdt, htd]; exact h.DT2
+  · rw [htd, hdt]; exact h.DT3
+  · rw [hpa, hrn]; exact h.PN
+  · rw [htd, hpa]; exact h.PI
+  · rw [hsh, htd]; exact h.SD
+  · intro sid; rw [hlog sid, hlive]; exact h.CL sid
+
+macro "thr2" h:ident hi:ident hne:ident : tactic =>
+  `(tactic| first
+    | exact $h
+    | exact upd_inv2 $h $hi rfl $hne (by simp) rfl (by simp) rfl rfl rfl rfl rfl rfl rfl rfl (by u2)
+    | exact inv2_congr $h rfl rfl rfl rfl rfl rfl rfl rfl rfl rfl rfl (by u2))
+
+theorem doWake_inv2 {s : State} (h : Inv2 s) (i : Nat) (to : Bool) : Inv2 (doWake s i to) := by
+  unfold doWake
+  split
+  · rename_i t hi
+    split
+    · rename_i a hpc
+      have hne : t.pc ≠ .fdtor := by rw [hpc]; simp
+      cases hal : s.implAlive <;> simp only [touch, hal, if_true, if_false, Bool.false_eq_true] <;> (repeat' split) <;>
+        thr2 h hi hne
+    · exact h
+  · exact h
+
+theorem doConnClose_inv2 {s : State} (h : Inv2 s) (i : Nat) : Inv2 (doConnClose s i) := by
+  unfold doConnClose
+  split
+  · rename_i t hi
+    split
+    · rename_i hpc
+      have hne : t.pc ≠ .fdtor := by rw [hpc]; simp
+      cases hal : s.implAlive <;> simp only [touch, hal, if_true, if_false, Bool.false_eq_true] <;> thr2 h hi hne
+    · exact h
+  · exact h
+
+theorem doConnRelock_inv2 {s : State} (h : Inv2 s) (i : Nat) : Inv2 (doConnRelock s i) := by
+  unfold doConnRelock
+  split
+  · rename_i t hi
+    split
+    · rename_i hpc
+      have hne : t.pc ≠ .fdtor := by rw [hpc]; simp
+      cases hal : s.implAlive <;> simp only [touch, hal, if_true, if_false, Bool.false_eq_true] <;> thr2 h hi hne
+    · exact h
+  · exact h
+
+theorem doFlushStep_inv2 {s : State} (h : Inv2 s) (i : Nat) (more : Bool) : Inv2 (doFlushStep s i more) := by
+  unfold doFlushStep
+  split
+  · rename_i t hi
+    split
+    · rename_i hpc
+      have hne : t.pc ≠ .fdtor := by rw [hpc]; simp
+      cases hal : s.implAlive <;> simp only [touch, hal, if_true, if_false, Bool.false_eq_true] <;> (repeat' split) <;>
+        thr2 h hi hne
+    · rename_i hpc
+      have hne : t.pc ≠ .fdtor := by rw [hpc]; simp
+      thr2 h hi hne
+    · rename_i r hpc
+      have hne : t.pc ≠ .fdtor := by rw [hpc]; simp
+      cases hal : s.implAlive <;> simp only [touch, hal, if_true, if_false, Bool.false_eq_true] <;> thr2 h hi hne
+    · -- fdtor
+      rename_i hpc
+      split
+      · rename_i htd
+        have hsh : shape s.td = 7 := by rw [htd]; rfl
+        have hio := h.DIO (Or.inr (Or.inr (Or.inl hsh)))
+        have hsj : s.stopJoining = false := by
+          cases hs : s.stopJoining with
+          | false => rfl
+          | true => have := (h.SJ hs).1; rw [hsh] at this; cases this
+        have hdt1 := h.DT1
+        have hcl := h.CL
+        have hpn := h.PN
+        have hsb := h.SB
+        cases hal : s.implAlive <;> simp only [touch, hal, if_true, if_false, Bool.false_eq_true]
+        all_goals
+          constructor
+          · exact hsb
+          · intro hs; simp only [] at hs; rw [hsj] at hs; cases hs
+          · intro hs; simp [shape] at hs
+          · intro hs; simp [shape] at hs
+          · intro _; exact hio
+          · intro hs; simp [shape] at hs
+          · intro hs; simp [shape] at hs
+          · intro j hj
+            simp only [setT] at hj
+            by_cases hji : j = i
+            · subst hji; rw [fdAt_set_self hi] at hj; simp at hj
+            · rw [fdAt_set_ne hji] at hj; exact hdt1 j hj
+          · intro k _ hne; simp [shape] at hne
+          · intro hs; simp [shape] at hs
+          · exact hpn
+          · intro hs; simp [shape] at hs
+          · intro _; simp [shape]
+          · intro sid
+            have := hcl sid
+            simpa [List.count_append, List.count_cons] using this
+      · exact h
+    · exact h
+  · exact h
+
+theorem doFlushSelfDestruct_inv2 {s : State} (h : Inv2 s) (i : Nat) (hok : ok s (.flushSelfDestruct i) = true) :
+    Inv2 (doFlushSelfDestruct s i) := by
+  have hsj : s.stopJoining = false := by simpa [ok] using hok
+  unfold doFlushSelfDestruct
+  split
+  · rename_i t hi
+    split
+    · rename_i hpc htd hdt
+      have hsb := h.SB; have hdt1 := h.DT1; have hcl := h.CL; have hpn := h.PN; have hsd := h.SD
+      cases hal : s.implAlive <;> simp only [touch, hal, if_true, if_false, Bool.false_eq_true]
+      all_goals
+        constructor
+        · exact hsb
+        · intro hs; simp only [] at hs; rw [hsj] at hs; cases hs
+        · intro hs; simp [htd, notifyTd, shape] at hs
+        · intro hs; simp [htd, notifyTd, shape] at hs
+        · intro hs; simp [htd, notifyTd, shape] at hs
+        · intro hs; simp [htd, notifyTd, shape] at hs
+        · intro hs; simp [htd, notifyTd, shape] at hs
+        · intro j hj
+          simp only [setT] at hj ⊢
+          by_cases hji : j = i
+          · subst hji; rfl
+          · rw [fdAt_set_ne hji] at hj
+            have := hdt1 j hj; rw [hdt] at this; cases this
+        · intro k hk _
+          simp only [Option.some.injEq] at hk
+          subst hk
+          simp only [setT]
+          rw [fdAt_set_self hi]; rfl
+        · intro hs; simp [htd, notifyTd, shape] at hs
+        · exact hpn
+        · intro hs; simp [htd, notifyTd, shape] at hs
+        · intro hs
+          have := hsd hs; rw [htd] at this; exact absurd rfl this
+        · exact hcl
+    · exact h
+  · exact h
+
+theorem closeSess_inv2 {s : State} (h : Inv2 s) (sid : Nat) (hmem : s.live.contains sid = true) : Inv2 (closeSess s sid) := by
+  have hsb := h.SB; have hsj := h.SJ; have hfr := h.FR; have hjr := h.JR; have hdio := h.DIO; have hioa := h.IOA
+  have hior := h.IOR; have hdt1 := h.DT1; have hdt2 := h.DT2; have hdt3 := h.DT3; have hpn := h.PN; have hpi := h.PI
+  have hsd := h.SD; have hcl := h.CL
+  have hm : sid ∈ s.live := by simpa using hmem
+  unfold closeSess
+  cases hal : s.implAlive <;> simp only [touch, hal, if_true, if_false, Bool.false_eq_true]
+  all_goals
+    constructor
+    · exact hsb
+    · exact hsj
+    · exact hfr
+    · exact hjr
+    · exact hdio
+    · exact hioa
+    · exact hior
+    · intro j hj; simp only [fdAt_wakeAll] at hj; exact hdt1 j hj
+    · intro k hk hne; simp only [fdAt_wakeAll]; exact hdt2 k hk hne
+    · exact hdt3
+    · exact hpn
+    · exact hpi
+    · exact hsd
+    · intro sid'
+      have h1 := hcl sid'
+      by_cases hs : sid' = sid
+      · subst hs
+        have h0 := h1.2 hm
+        simp [List.count_append, List.count_cons, h0]
+      · have hne : ¬ (sid = sid') := fun e => hs e.symm
+        simp only [List.count_append, List.count_cons, List.count_nil, beq_iff_eq, Ev.cbClose.injEq, hne, if_false,
+          Nat.add_zero, List.mem_filter, bne_iff_ne, ne_eq]
+        exact ⟨h1.1, fun hm' => h1.2 hm'.1⟩
+
+theorem doIoCloseSess_inv2 {s : State} (h : Inv2 s) (sid : Nat) : Inv2 (doIoCloseSess s sid) := by
+  unfold doIoCloseSess; split
+  · rename_i hc
+    simp only [Bool.and_eq_true] at hc
+    exact closeSess_inv2 h sid hc.2
+  · exact h
+
+theorem doIoConnDone_inv2 {s : State} (h : Inv2 s) (i : Nat) : Inv2 (doIoConnDone s i) := by
+  unfold doIoConnDone
+  split
+  · split
+    · rename_i t hi
+      split
+      · rename_i a hk hpc
+        have hne : t.pc ≠ .fdtor := by rw [hpc]; simp
+        cases hal : s.implAlive <;> simp only [touch, hal, if_true, if_false, Bool.false_eq_true] <;> thr2 h hi hne
+      · exact h
+    · exact h
+  · exact h
+
+theorem doIoSyncCall_inv2 {s : State} (h : Inv2 s) (op : SyncOp) : Inv2 (doIoSyncCall s op) := by
+  unfold doIoSyncCall
+  split
+  · simp only [guard_ok, Bool.true_or, if_true]
+    cases hal : s.implAlive <;> simp only [touch, hal, if_true, if_false, Bool.false_eq_true] <;>
+      exact inv2_congr h rfl rfl rfl rfl rfl rfl rfl rfl rfl rfl rfl (by u2)
+  · exact h
+
+theorem doIoDrain_inv2 {s : State} (h : Inv2 s) (sid : Option Nat) : Inv2 (doIoDrain s sid) := by
+  unfold doIoDrain
+  split
+  · rename_i hc
+    simp only [Bool.and_eq_true, Bool.not_eq_true'] at hc
+    cases sid with
+    | some sid =>
+      simp only []; split
+      · rename_i hm; exact closeSess_inv2 h sid hm
+      · exact h
+    | none =>
+      simp only []
+      have hsb := h.SB; have hsj := h.SJ; have hfr := h.FR; have hjr := h.JR; have hdio := h.DIO; have hioa := h.IOA
+      have hior := h.IOR; have hdt1 := h.DT1; have hdt2 := h.DT2; have hdt3 := h.DT3; have hpn := h.PN; have hpi := h.PI
+      have hsd := h.SD; have hcl := h.CL
+      have hfree := hc.1
+      split
+      · split
+        · rename_i htd
+          have hsh : shape s.td = 6 := by rw [htd]; rfl
+          constructor
+          · exact hsb
+          · intro hs; have := (hsj hs).1; rw [hsh] at this; cases this
+          · intro hs; simp [shape] at hs
+          · intro hs; simp [shape] at hs
+          · intro _; rfl
+          · intro hs; simp [shape] at hs
+          · intro hs; simp [shape] at hs
+          · exact hdt1
+          · intro k _ hne; simp [shape] at hne
+          · intro hs; simp [shape] at hs
+          · exact hpn
+          · intro hs; simp [shape] at hs
+          · intro _; simp [shape]
+          · intro sid'
+            have := hcl sid'
+            simpa [List.count_append, List.count_cons] using this
+        · rename_i hnr
+          have h5 : shape s.td ≠ 5 := by
+            intro h5; cases htd : s.td <;> simp [htd, shape, ioFree] at h5 hfree
+          have h6 : shape s.td ≠ 6 := by
+            intro h6; cases htd : s.td <;> simp [htd, shape] at h6
+            exact hnr htd
+          constructor
+          · exact hsb
+          · exact hsj
+          · exact hfr
+          · exact hjr
+          · intro _; rfl
+          · intro hs; rcases hs with hs | hs
+            · exact absurd hs h5
+            · exact absurd hs h6
+          · exact hior
+          · exact hdt1
+          · exact hdt2
+          · exact hdt3
+          · exact hpn
+          · exact hpi
+          · exact hsd
+          · exact hcl
+      · exact h
+  · exact h
+
+theorem doStopCall_inv2 {s : State} (h : Inv2 s) (hok : ok s .stopCall = true) : Inv2 (doStopCall s) := by
+  have hidle : s.td = .idle ∧ s.dtorOn = none := by
+    simpa [ok] using hok
+  have hsb := h.SB; have hsj := h.SJ; have hfr := h.FR; have hjr := h.JR; have hdio := h.DIO; have hioa := h.IOA
+  have hior := h.IOR; have hdt1 := h.DT1; have hdt2 := h.DT2; have hdt3 := h.DT3; have hpn := h.PN; have hpi := h.PI
+  have hsd := h.SD; have hcl := h.CL
+  unfold doStopCall
+  split
+  · exact h
+  · cases hal : s.implAlive <;> simp only [touch, hal, if_true, if_false, Bool.false_eq_true] <;> split
+    all_goals first
+      | exact inv2_congr h rfl rfl rfl rfl rfl rfl rfl rfl rfl rfl rfl (by u2)
+      | (constructor
+         · exact hsb
+         · intro _; exact ⟨by rw [hidle.1]; rfl, hidle.2, rfl⟩
+         · intro hs; simp [hidle.1, shape] at hs
+         · intro _; rfl
+         · exact hdio
+         · exact hioa
+         · intro _; rfl
+         · exact hdt1
+         · exact hdt2
+         · exact hdt3
+         · exact hpn
+         · exact hpi
+         · exact hsd
+         · exact hcl)
+
+theorem doStopJoin_inv2 {s : State} (h : Inv2 s) : Inv2 (doStopJoin s) := by
+  have hsb := h.SB; have hsj := h.SJ; have hfr := h.FR; have hjr := h.JR; have hdio := h.DIO; have hioa := h.IOA
+  have hior := h.IOR; have hdt1 := h.DT1; have hdt2 := h.DT2; have hdt3 := h.DT3; have hpn := h.PN; have hpi := h.PI
+  have hsd := h.SD; have hcl := h.CL
+  unfold doStopJoin
+  split
+  · cases hal : s.implAlive <;> simp only [touch, hal, if_true, if_false, Bool.false_eq_true]
+    all_goals
+      constructor
+      · exact hsb
+      · intro hs; cases hs
+      · exact hfr
+      · exact hjr
+      · exact hdio
+      · exact hioa
+      · exact hior
+      · exact hdt1
+      · exact hdt2
+      · exact hdt3
+      · exact hpn
+      · exact hpi
+      · exact hsd
+      · intro sid; have := hcl sid; simpa [List.count_append, List.count_cons] using this
+  · exact h
+
+/-- the entry section of `teardownWaitOut` / `setTeardownFence` followed by the destructor's next program counter -/
+theorem waitOut_td_inv2 {s : State} (h : Inv2 s) (nr : Bool) (td' : Td) (p : Path) (run' : Bool)
+    (hsj : s.stopJoining = false) (hs8 : shape s.td ≠ 8) (h0 : shape td' ≠ 0)
+    (hfr : shape td' = 1 → run' = true) (hjr : shape td' = 2 → run' = false)
+    (hdio : shape td' = 3 ∨ shape td' = 4 ∨ shape td' = 7 ∨ shape td' = 8 → s.ioAlive = false)
+    (hioa : shape td' = 5 ∨ shape td' = 6 → s.ioAlive = true ∧ s.dtorOn = none) (hior : shape td' = 6 → run' = false)
+    (h7 : shape td' ≠ 7)
+    (hpn : p = .stopped ∨ p = .io → (s.recvNotified || nr) = true) (hpi : shape td' = 5 → p = .io) :
+    Inv2 { waitOutEntry s nr with td := td', path := p, running := run' } := by
+  constructor
+  · exact h.SB
+  · intro hs; simp only [waitOutEntry] at hs; rw [hsj] at hs; cases hs
+  · exact hfr
+  · exact hjr
+  · exact hdio
+  · exact hioa
+  · exact hior
+  · intro j hj; simp only [waitOutEntry, fdAt_wakeAll] at hj; exact h.DT1 j hj
+  · intro k hk _
+    simp only [waitOutEntry, fdAt_wakeAll]
+    simp only [waitOutEntry] at hk
+    exact h.DT2 k hk hs8
+  · intro hs; exact absurd hs h7
+  · exact hpn
+  · exact hpi
+  · intro _; exact h0
+  · exact h.CL
+
+/-- the destructor moves on without a critical section of its own -/
+theorem td_inv2 {s : State} (h : Inv2 s) (td' : Td) (run' : Bool) (io' : Bool)
+    (hsj : s.stopJoining = false) (hs0 : shape s.td ≠ 0) (h0 : shape td' ≠ 0)
+    (hfr : shape td' = 1 → run' = true) (hjr : shape td' = 2 → run' = false)
+    (hdio : shape td' = 3 ∨ shape td' = 4 ∨ shape td' = 7 ∨ shape td' = 8 → io' = false)
+    (hioa : shape td' = 5 ∨ shape td' = 6 → io' = true ∧ s.dtorOn = none) (hior : shape td' = 6 → run' = false)
+    (hdt2 : ∀ i, s.dtorOn = some i → shape td' ≠ 8 → fdAt s.threads i = true)
+    (h7 : shape td' = 7 → s.dtorOn ≠ none) (hpi : shape td' = 5 → s.path = .io) (evs : List Ev)
+    (hevs : ∀ sid, evs.count (.cbClose sid) = 0) :
+    Inv2 { s with td := td', running := run', ioAlive := io', log := s.log ++ evs } := by
+  constructor
+  · exact h.SB
+  · intro hs; simp only [] at hs; rw [hsj] at hs; cases hs
+  · exact hfr
+  · exact hjr
+  · exact hdio
+  · exact hioa
+  · exact hior
+  · exact h.DT1
+  · exact hdt2
+  · exact h7
+  · exact h.PN
+  · exact hpi
+  · intro _; exact h0
+  · intro sid; simp only [List.count_append, hevs sid, Nat.add_zero]; exact h.CL sid
+
+theorem sj_false_of_shape {s : State} (h : Inv2 s) (hs : shape s.td ≠ 0) : s.stopJoining = false := by
+  cases hsj : s.stopJoining with
+  | false => rfl
+  | true => exact absurd (h.SJ hsj).1 hs
+
+theorem doTdBegin_inv2 {s : State} (h1 : Inv s) (h : Inv2 s) (hok : ok s .tdBegin = true) : Inv2 (doTdBegin s) := by
+  have hsj : s.stopJoining = false := by simpa [ok] using hok
+  unfold doTdBegin
+  split
+  · rename_i htd
+    have hs8 : shape s.td ≠ 8 := by rw [htd]; simp [shape]
+    split
+    · rename_i hrun
+      have := waitOut_td_inv2 h false .fenced .normal s.running hsj hs8 (by simp [shape]) (fun _ => hrun) (by simp [shape])
+        (by simp [shape]) (by simp [shape]) (by simp [shape]) (by simp [shape]) (by simp) (by simp [shape])
+      exact this
+    · rename_i hrun
+      have hrun' : s.running = false := by simpa using hrun
+      have hio : s.ioAlive = false := by
+        rcases h1.IO2 hrun' with hx | hx | hx
+        · rw [hsj] at hx; cases hx
+        · exact absurd htd hx
+        · exact hx
+      simp only []
+      split
+      · have := waitOut_td_inv2 h nrStopped .waited .stopped s.running hsj hs8 (by simp [shape]) (by simp [shape]) (by simp [shape])
+          (fun _ => hio) (by simp [shape]) (by simp [shape]) (by simp [shape]) (by simp [nrStopped_true]) (by simp [shape])
+        exact this
+      · have := waitOut_td_inv2 h nrStopped (.waiting false) .stopped s.running hsj hs8 (by simp [shape]) (by simp [shape]) (by simp [shape])
+          (fun _ => hio) (by simp [shape]) (by simp [shape]) (by simp [shape]) (by simp [nrStopped_true]) (by simp [shape])
+        exact this
+  · exact h
+
+theorem doTdStop_inv2 {s : State} (h : Inv2 s) : Inv2 (doTdStop s) := by
+  unfold doTdStop
+  split
+  · rename_i htd
+    have hs1 : shape s.td = 1 := by rw [htd]; rfl
+    have hrun := h.FR hs1
+    have hsj := sj_false_of_shape h (by rw [hs1]; simp)
+    simp only [hrun, if_true]
+    have := td_inv2 h .joining false s.ioAlive hsj (by rw [hs1]; simp) (by simp [shape]) (by simp [shape]) (fun _ => rfl)
+      (by simp [shape]) (by simp [shape]) (by simp [shape])
+      (fun i hi _ => h.DT2 i hi (by rw [hs1]; simp)) (by simp [shape]) (by simp [shape]) [] (by simp)
+    simpa using this
+  · exact h
+
+theorem doTdJoined_inv2 {s : State} (h : Inv2 s) : Inv2 (doTdJoined s) := by
+  unfold doTdJoined
+  split
+  · rename_i htd
+    have hs2 : shape s.td = 2 := by rw [htd]; rfl
+    have hsj := sj_false_of_shape h (by rw [hs2]; simp)
+    have hs8 : shape s.td ≠ 8 := by rw [hs2]; simp
+    have hrun := h.JR hs2
+    split
+    · exact h
+    · rename_i hio
+      have hio' : s.ioAlive = false := by simpa using hio
+      simp only []
+      split
+      · have := waitOut_td_inv2 h nrNormal .waited s.path s.running hsj hs8 (by simp [shape]) (by simp [shape]) (by simp [shape])
+          (fun _ => hio') (by simp [shape]) (by simp [shape]) (by simp [shape])
+          (fun hp => by have := h.PN hp; simp [this]) (by simp [shape])
+        exact this
+      · have := waitOut_td_inv2 h nrNormal (.waiting false) s.path s.running hsj hs8 (by simp [shape]) (by simp [shape]) (by simp [shape])
+          (fun _ => hio') (by simp [shape]) (by simp [shape]) (by simp [shape])
+          (fun hp => by have := h.PN hp; simp [this]) (by simp [shape])
+        exact this
+  · exact h
+
+theorem doTdWake_inv2 {s : State} (h : Inv2 s) : Inv2 (doTdWake s) := by
+  unfold doTdWake
+  split
+  · rename_i a htd
+    have hs3 : shape s.td = 3 := by rw [htd]; rfl
+    have hsj := sj_false_of_shape h (by rw [hs3]; simp)
+    have hio := h.DIO (Or.inl hs3)
+    split
+    · have := td_inv2 h .waited s.running s.ioAlive hsj (by rw [hs3]; simp) (by simp [shape]) (by simp [shape]) (by simp [shape])
+        (fun _ => hio) (by simp [shape]) (by simp [shape])
+        (fun i hi _ => h.DT2 i hi (by rw [hs3]; simp)) (by simp [shape]) (by simp [shape]) [] (by simp)
+      simpa using this
+    · have := td_inv2 h (.waiting false) s.running s.ioAlive hsj (by rw [hs3]; simp) (by simp [shape]) (by simp [shape]) (by simp [shape])
+        (fun _ => hio) (by simp [shape]) (by simp [shape])
+        (fun i hi _ => h.DT2 i hi (by rw [hs3]; simp)) (by simp [shape]) (by simp [shape]) [] (by simp)
+      simpa using this
+  · rename_i a htd
+    have hs5 : shape s.td = 5 := by rw [htd]; rfl
+    have hsj := sj_false_of_shape h (by rw [hs5]; simp)
+    have hio := h.IOA (Or.inl hs5)
+    have hpi := h.PI hs5
+    split
+    · have := td_inv2 h .ioReleased false s.ioAlive hsj (by rw [hs5]; simp) (by simp [shape]) (by simp [shape]) (by simp [shape])
+        (by simp [shape]) (fun _ => hio) (fun _ => rfl)
+        (fun i hi _ => h.DT2 i hi (by rw [hs5]; simp)) (by simp [shape]) (by simp [shape]) [] (by simp)
+      simpa using this
+    · have := td_inv2 h (.ioWaiting false) s.running s.ioAlive hsj (by rw [hs5]; simp) (by simp [shape]) (by simp [shape]) (by simp [shape])
+        (by simp [shape]) (fun _ => hio) (by simp [shape])
+        (fun i hi _ => h.DT2 i hi (by rw [hs5]; simp)) (by simp [shape]) (fun _ => hpi) [] (by simp)
+      simpa using this
+  · exact h
+
+theorem doTdDestroy_inv2 {s : State} (h : Inv2 s) : Inv2 (doTdDestroy s) := by
+  unfold doTdDestroy
+  split
+  · rename_i htd hdt
+    have hs4 : shape s.td = 4 := by rw [htd]; rfl
+    have hsj := sj_false_of_shape h (by rw [hs4]; simp)
+    have hio := h.DIO (Or.inr (Or.inl hs4))
+    have := td_inv2 h .destroyed s.running s.ioAlive hsj (by rw [hs4]; simp) (by simp [shape]) (by simp [shape]) (by simp [shape])
+      (fun _ => hio) (by simp [shape]) (by simp [shape])
+      (fun i _ hne => absurd rfl hne) (by simp [shape]) (by simp [shape]) [.destroyed] (by simp [List.count_cons])
+    have e : ({ s with td := .destroyed, implAlive := false, log := s.log ++ [.destroyed] } : State) =
+        { ({ s with td := .destroyed, running := s.running, ioAlive := s.ioAlive, log := s.log ++ [.destroyed] } : State) with implAlive := false } := rfl
+    rw [e]
+    exact inv2_congr this rfl rfl rfl rfl rfl rfl rfl rfl rfl rfl rfl (fun _ => rfl)
+  · exact h
+
+theorem doTdOrphan_inv2 {s : State} (h : Inv2 s) : Inv2 (doTdOrphan s) := by
+  unfold doTdOrphan
+  split
+  · rename_i i htd hdt
+    have hs4 : shape s.td = 4 := by rw [htd]; rfl
+    have hsj := sj_false_of_shape h (by rw [hs4]; simp)
+    have hio := h.DIO (Or.inr (Or.inl hs4))
+    have := td_inv2 h .flushOwned s.running s.ioAlive hsj (by rw [hs4]; simp) (by simp [shape]) (by simp [shape]) (by simp [shape])
+      (fun _ => hio) (by simp [shape]) (by simp [shape])
+      (fun k hk _ => h.DT2 k hk (by rw [hs4]; simp)) (fun _ => by rw [hdt]; simp) (by simp [shape]) [] (by simp)
+    simpa using this
+  · exact h
+
+theorem doIoSelfDestruct_inv2 {s : State} (h : Inv2 s) (hok : ok s .ioSelfDestruct = true) : Inv2 (doIoSelfDestruct s) := by
+  have hsj : s.stopJoining = false := by simpa [ok] using hok
+  unfold doIoSelfDestruct
+  split
+  · rename_i htd hdt
+    have hs8 : shape s.td ≠ 8 := by rw [htd]; simp [shape]
+    split
+    · rename_i hfree
+      have hio := ioFree_alive hfree
+      simp only [ioBranch_ok, Bool.not_true, Bool.false_and, Bool.false_eq_true, if_false]
+      split
+      · have := waitOut_td_inv2 h nrIo .ioReleased .io false hsj hs8 (by simp [shape]) (by simp [shape]) (by simp [shape])
+          (by simp [shape]) (fun _ => ⟨hio, hdt⟩) (fun _ => rfl) (by simp [shape]) (by simp [nrIo_true]) (by simp [shape])
+        exact this
+      · have := waitOut_td_inv2 h nrIo (.ioWaiting false) .io s.running hsj hs8 (by simp [shape]) (by simp [shape]) (by simp [shape])
+          (by simp [shape]) (fun _ => ⟨hio, hdt⟩) (by simp [shape]) (by simp [shape]) (by simp [nrIo_true]) (fun _ => rfl)
+        exact this
+    · exact h
+  · exact h
+
+/-! ## every step that respects the environment contract keeps both groups -/
+
+theorem io_alive_impl {s : State} (h : Inv s) (h2 : Inv2 s) : s.ioAlive = true → s.implAlive = true := by
+  intro hio
+  apply alive_of_not_destroyed h
+  intro hd
+  have := h2.DIO (Or.inr (Or.inr (Or.inr (by rw [hd]; rfl))))
+  rw [hio] at this; cases this
+
+theorem sj_impl {s : State} (h : Inv s) (h2 : Inv2 s) : s.stopJoining = true → s.implAlive = true := by
+  intro hsj
+  apply alive_of_not_destroyed h
+  intro hd
+  have := (h2.SJ hsj).1
+  rw [hd] at this; cases this
+
+theorem step_inv {s : State} (h : Inv s) (h2 : Inv2 s) (st : Step) (hok : ok s st = true) :
+    Inv (step s st) ∧ Inv2 (step s st) := by
+  have hio := io_alive_impl h h2
+  cases st with
+  | enter i => exact ⟨doEnter_inv h i hok, doEnter_inv2 h2 i⟩
+  | wake i t => exact ⟨doWake_inv h i t, doWake_inv2 h2 i t⟩
+  | connClose i => exact ⟨doConnClose_inv h i, doConnClose_inv2 h2 i⟩
+  | connRelock i => exact ⟨doConnRelock_inv h i, doConnRelock_inv2 h2 i⟩
+  | flushStep i m => exact ⟨doFlushStep_inv h i m, doFlushStep_inv2 h2 i m⟩
+  | ioCloseSess sid => exact ⟨doIoCloseSess_inv h hio sid, doIoCloseSess_inv2 h2 sid⟩
+  | ioConnDone i => exact ⟨doIoConnDone_inv h hio i, doIoConnDone_inv2 h2 i⟩
+  | ioDrain sid => exact ⟨doIoDrain_inv h hio sid, doIoDrain_inv2 h2 sid⟩
+  | ioSyncCall op => exact ⟨doIoSyncCall_inv h hio op, doIoSyncCall_inv2 h2 op⟩
+  | stopCall => exact ⟨doStopCall_inv h hok, doStopCall_inv2 h2 hok⟩
+  | stopJoin => exact ⟨doStopJoin_inv h (sj_impl h h2), doStopJoin_inv2 h2⟩
+  | tdBegin => exact ⟨doTdBegin_inv h, doTdBegin_inv2 h h2 hok⟩
+  | tdStop => exact ⟨doTdStop_inv h, doTdStop_inv2 h2⟩
+  | tdJoined => exact ⟨doTdJoined_inv h, doTdJoined_inv2 h2⟩
+  | tdWake => exact ⟨doTdWake_inv h, doTdWake_inv2 h2⟩
+  | tdDestroy => exact ⟨doTdDestroy_inv h, doTdDestroy_inv2 h2⟩
+  | tdOrphan => exact ⟨doTdOrphan_inv h, doTdOrphan_inv2 h2⟩
+  | ioSelfDestruct => exact ⟨doIoSelfDestruct_inv h, doIoSelfDestruct_inv2 h2 hok⟩
+  | flushSelfDestruct i => exact ⟨doFlushSelfDestruct_inv h i, doFlushSelfDestruct_inv2 h2 i hok⟩
+
+theorem run_inv : ∀ (steps : List Step) (s : State), Inv s → Inv2 s → Disciplined s steps → Inv (run s steps) ∧ Inv2 (run s steps) := by
   intro steps
   induction steps with
-  | nil => intro s h _; exact h
-  | cons st rest ih => intro s h hd; exact ih _ (step_inv h st hd.1) hd.2
+  | nil => intro s h h2 _; exact ⟨h, h2⟩
+  | cons st rest ih =>
+    intro s h h2 hd
+    have := step_inv h h2 st hd.1
+    exact ih _ this.1 this.2 hd.2
 
 /-! ## consequences used by the property theorems -/
 
@@ -795,14 +1582,11 @@ theorem gate_of_no_inside {s : State} (h : Inv s)
     obtain ⟨j, hj⟩ := List.mem_iff_getElem?.mp ht
     have := hn j t hj
     simp [hp t hpt] at this
-  simp only [gate, Bool.and_eq_true, beq_iff_eq]
+  simp only [gate_def, Bool.and_eq_true, beq_iff_eq]
   refine ⟨⟨?_, ?_⟩, ?_⟩
   · rw [h.CR]; exact z _ (fun t => (counted_inside t).1)
   · rw [h.CC]; exact z _ (fun t => (counted_inside t).2.1)
   · rw [h.CF]; exact z _ (fun t => (counted_inside t).2.2)
-
-theorem get_set_self {l : List Thread} {i : Nat} {t x : Thread} (h : l[i]? = some t) : (l.set i x)[i]? = some x :=
-  List.getElem?_set_self (lt_of_get h)
 
 @[simp] theorem touch_threads (s : State) : (touch s).threads = s.threads := by unfold touch; split <;> rfl
 @[simp] theorem touch_sh (s : State) : (touch s).shuttingDown = s.shuttingDown := by unfold touch; split <;> rfl
@@ -892,6 +1676,7 @@ theorem finite_path {s : State} {i : Nat} {t : Thread} (hi : s.threads[i]? = som
   cases hpc : t.pc with
   | notStarted => simp [hpc, inside] at hin
   | done r => simp [hpc, inside] at hin
+  | fdtor => simp [hpc, inside] at hin
   | parked a =>
     obtain ⟨t1, h1, hk1, hko, h2⟩ := wake_pc hi hpc hk
     rcases h2 with ⟨r, h2⟩ | h2
@@ -916,79 +1701,468 @@ theorem finite_path {s : State} {i : Nat} {t : Thread} (hi : s.threads[i]? = som
     exact ⟨[.flushStep i false], by simp, t', r, h3, h4⟩
 
 
-theorem closeSess_log (s : State) (sid : Nat) : (closeSess s sid).log = s.log ++ [.cbClose sid] := rfl
 
-/-- close callbacks come only from I/O-thread steps -/
-theorem cb_confined (s : State) (st : Step) (sid : Nat) (h : Ev.cbClose sid ∈ (step s st).log) :
-    Ev.cbClose sid ∈ s.log ∨ (s.ioAlive = true ∧ ((∃ x, st = .ioCloseSess x) ∨ (∃ x, st = .ioDrain x))) := by
+/-! ## callbacks, by counting -/
+
+@[simp] theorem touch_log (s : State) : (touch s).log = s.log := by unfold touch; split <;> rfl
+@[simp] theorem touch_live (s : State) : (touch s).live = s.live := by unfold touch; split <;> rfl
+@[simp] theorem touch_td (s : State) : (touch s).td = s.td := by unfold touch; split <;> rfl
+@[simp] theorem touch_ioAlive (s : State) : (touch s).ioAlive = s.ioAlive := by unfold touch; split <;> rfl
+@[simp] theorem waitOut_log (s : State) (nr : Bool) : (waitOutEntry s nr).log = s.log := rfl
+
+theorem closeSess_log (s : State) (sid : Nat) : (closeSess s sid).log = s.log ++ [.cbClose sid] := by
+  simp [closeSess]
+
+macro "nocb" : tactic =>
+  `(tactic| ((repeat' split) <;> simp [List.count_append, List.count_cons, closeSess_log, waitOutEntry]))
+
+/-- close callbacks: a step adds at most one, and only a step of the I/O thread, while that thread exists, for a session the
+engine still has open -/
+theorem cbClose_step (s : State) (st : Step) (sid : Nat) :
+    (step s st).log.count (.cbClose sid) = s.log.count (.cbClose sid) ∨
+    ((step s st).log.count (.cbClose sid) = s.log.count (.cbClose sid) + 1 ∧ s.ioAlive = true ∧ s.live.contains sid = true ∧
+      (st = .ioCloseSess sid ∨ st = .ioDrain (some sid))) := by
   cases st with
   | ioCloseSess x =>
-    simp only [step, doIoCloseSess] at h
-    split at h
-    · rename_i hc; simp only [Bool.and_eq_true] at hc
-      exact Or.inr ⟨ioFree_alive hc.1, Or.inl ⟨x, rfl⟩⟩
-    · exact Or.inl h
+    simp only [step, doIoCloseSess]
+    split
+    · rename_i hc
+      simp only [Bool.and_eq_true] at hc
+      by_cases hx : x = sid
+      · subst hx; right
+        exact ⟨by simp [closeSess_log, List.count_append, List.count_cons], ioFree_alive hc.1, hc.2, Or.inl rfl⟩
+      · left; simp [closeSess_log, List.count_append, List.count_cons, hx]
+    · left; rfl
   | ioDrain x =>
-    simp only [step, doIoDrain] at h
-    split at h
-    · rename_i hc; simp only [Bool.and_eq_true] at hc
-      exact Or.inr ⟨ioFree_alive hc.1, Or.inr ⟨x, rfl⟩⟩
-    · exact Or.inl h
-  | enter i =>
-    left
-    simp only [step, doEnter] at h
-    (repeat' split at h) <;> simp_all [touch] <;> (try (split at h <;> simp_all))
-  | wake i t =>
-    left
-    simp only [step, doWake] at h
-    (repeat' split at h) <;> simp_all [touch] <;> (try (split at h <;> simp_all))
-  | connClose i =>
-    left
-    simp only [step, doConnClose] at h
-    (repeat' split at h) <;> simp_all [touch] <;> (try (split at h <;> simp_all))
-  | connRelock i =>
-    left
-    simp only [step, doConnRelock] at h
-    (repeat' split at h) <;> simp_all [touch] <;> (try (split at h <;> simp_all))
-  | flushStep i m =>
-    left
-    simp only [step, doFlushStep] at h
-    (repeat' split at h) <;> simp_all [touch] <;> (try (split at h <;> simp_all))
-  | ioConnDone i =>
-    left
-    simp only [step, doIoConnDone] at h
-    (repeat' split at h) <;> simp_all
-  | stopCall =>
-    left
-    simp only [step, doStopCall] at h
-    (repeat' split at h) <;> simp_all
-  | stopJoin =>
-    left
-    simp only [step, doStopJoin] at h
-    (repeat' split at h) <;> simp_all
-  | tdBegin =>
-    left
-    simp only [step, doTdBegin, waitOutEntry] at h
-    (repeat' split at h) <;> simp_all <;> (try (split at h <;> simp_all))
-  | tdStop =>
-    left
-    simp only [step, doTdStop, waitOutEntry] at h
-    (repeat' split at h) <;> simp_all <;> (try (split at h <;> simp_all))
-  | tdJoined =>
-    left
-    simp only [step, doTdJoined, waitOutEntry] at h
-    (repeat' split at h) <;> simp_all <;> (try (split at h <;> simp_all))
-  | tdWake =>
-    left
-    simp only [step, doTdWake] at h
-    (repeat' split at h) <;> simp_all
-  | tdDestroy =>
-    left
-    simp only [step, doTdDestroy] at h
-    (repeat' split at h) <;> simp_all
-  | ioSelfDestruct =>
-    left
-    simp only [step, doIoSelfDestruct, waitOutEntry] at h
-    (repeat' split at h) <;> simp_all <;> (try (split at h <;> simp_all))
+    simp only [step, doIoDrain]
+    split
+    · rename_i hc
+      simp only [Bool.and_eq_true] at hc
+      cases x with
+      | some x =>
+        simp only []
+        split
+        · rename_i hm
+          by_cases hx : x = sid
+          · subst hx; right
+            exact ⟨by simp [closeSess_log, List.count_append, List.count_cons], ioFree_alive hc.1, hm, Or.inr rfl⟩
+          · left; simp [closeSess_log, List.count_append, List.count_cons, hx]
+        · left; rfl
+      | none => left; simp only []; nocb
+    · left; rfl
+  | enter i => left; simp only [step, doEnter]; nocb
+  | wake i t => left; simp only [step, doWake]; nocb
+  | connClose i => left; simp only [step, doConnClose]; nocb
+  | connRelock i => left; simp only [step, doConnRelock]; nocb
+  | flushStep i m => left; simp only [step, doFlushStep]; nocb
+  | ioConnDone i => left; simp only [step, doIoConnDone]; nocb
+  | ioSyncCall op => left; simp only [step, doIoSyncCall]; nocb
+  | stopCall => left; simp only [step, doStopCall]; nocb
+  | stopJoin => left; simp only [step, doStopJoin]; nocb
+  | tdBegin => left; simp only [step, doTdBegin]; nocb
+  | tdStop => left; simp only [step, doTdStop]; nocb
+  | tdJoined => left; simp only [step, doTdJoined]; nocb
+  | tdWake => left; simp only [step, doTdWake]; nocb
+  | tdDestroy => left; simp only [step, doTdDestroy]; nocb
+  | tdOrphan => left; simp only [step, doTdOrphan]; nocb
+  | ioSelfDestruct => left; simp only [step, doIoSelfDestruct]; nocb
+  | flushSelfDestruct i => left; simp only [step, doFlushSelfDestruct]; nocb
 
+/-- the data callback of a flush: a step adds at most one, and only the flushing thread's own loop step, before the fence -/
+theorem cbData_step (s : State) (st : Step) (i : Nat) :
+    (step s st).log.count (.cbData i) = s.log.count (.cbData i) ∨
+    ((step s st).log.count (.cbData i) = s.log.count (.cbData i) + 1 ∧ s.shuttingDown = false ∧
+      (∃ t, s.threads[i]? = some t ∧ t.pc = .floop) ∧ st = .flushStep i true) := by
+  cases st with
+  | flushStep j m =>
+    simp only [step, doFlushStep]
+    split
+    · rename_i t hj
+      split
+      · rename_i hpc
+        simp only [touch_sh, touch_threads, touch_log]
+        split
+        · left; simp
+        · rename_i hsh
+          split
+          · rename_i hm
+            by_cases hji : j = i
+            · subst hji; right
+              refine ⟨by simp [List.count_append, List.count_cons], by simpa using hsh, ⟨t, hj, hpc⟩, ?_⟩
+              simp [hm]
+            · left; simp [List.count_append, List.count_cons, hji]
+          · left; simp
+      · left; simp
+      · left; simp [List.count_append, List.count_cons]
+      · left; nocb
+      · left; rfl
+    · left; rfl
+  | ioCloseSess x => left; simp only [step, doIoCloseSess]; nocb
+  | ioDrain x => left; simp only [step, doIoDrain]; nocb
+  | enter i => left; simp only [step, doEnter]; nocb
+  | wake i t => left; simp only [step, doWake]; nocb
+  | connClose i => left; simp only [step, doConnClose]; nocb
+  | connRelock i => left; simp only [step, doConnRelock]; nocb
+  | ioConnDone i => left; simp only [step, doIoConnDone]; nocb
+  | ioSyncCall op => left; simp only [step, doIoSyncCall]; nocb
+  | stopCall => left; simp only [step, doStopCall]; nocb
+  | stopJoin => left; simp only [step, doStopJoin]; nocb
+  | tdBegin => left; simp only [step, doTdBegin]; nocb
+  | tdStop => left; simp only [step, doTdStop]; nocb
+  | tdJoined => left; simp only [step, doTdJoined]; nocb
+  | tdWake => left; simp only [step, doTdWake]; nocb
+  | tdDestroy => left; simp only [step, doTdDestroy]; nocb
+  | tdOrphan => left; simp only [step, doTdOrphan]; nocb
+  | ioSelfDestruct => left; simp only [step, doIoSelfDestruct]; nocb
+  | flushSelfDestruct i => left; simp only [step, doFlushSelfDestruct]; nocb
+
+/-! ## completion: no reachable state is a dead end -/
+
+def pcRank : Pc → Nat
+  | .notStarted => 0 | .parked _ => 3 | .window => 2 | .relock => 1 | .floop => 2 | .fcb => 3 | .fend _ => 1 | .fdtor => 1
+  | .done _ => 0
+
+def tdRank : Td → Nat
+  | .idle => 6 | .fenced => 5 | .joining => 4 | .waiting _ => 3 | .waited => 2 | .ioWaiting _ => 3 | .ioReleased => 2
+  | .flushOwned => 1 | .destroyed => 0
+
+def trank (l : List Thread) : Nat := (l.map (fun t => pcRank t.pc)).sum
+
+/-- steps still owed: by every thread inside a call, by the destructor, by the I/O thread (one per open session, one to terminate) -/
+def rank (s : State) : Nat := trank s.threads + tdRank s.td + (if s.ioAlive then s.live.length + 1 else 0)
+
+theorem trank_set {l : List Thread} {i : Nat} {t : Thread} (x : Thread) (h : l[i]? = some t) :
+    trank (l.set i x) + pcRank t.pc = trank l + pcRank x.pc := by
+  induction l generalizing i with
+  | nil => simp at h
+  | cons a rest ih =>
+    cases i with
+    | zero =>
+      simp at h; subst h
+      simp [trank]; omega
+    | succ n =>
+      simp at h
+      have := ih h
+      simp [trank] at this ⊢; omega
+
+theorem trank_wakeAll (q : Thread → Bool) (l : List Thread) : trank (wakeAll q l) = trank l := by
+  unfold trank wakeAll
+  rw [List.map_map]
+  congr 1
+  apply List.map_congr_left
+  intro t _
+  simp only [Function.comp]
+  cases h : t.pc <;> simp [h]
+  split <;> simp [pcRank, h]
+
+@[simp] theorem tdRank_notifyTd (td : Td) : tdRank (notifyTd td) = tdRank td := by cases td <;> rfl
+
+@[simp] theorem rank_touch (s : State) : rank (touch s) = rank s := by unfold touch; split <;> rfl
+
+theorem filter_length_lt {l : List Nat} {x : Nat} (h : l.contains x = true) : (l.filter (· != x)).length < l.length := by
+  induction l with
+  | nil => simp at h
+  | cons a rest ih =>
+    simp only [List.contains_cons, Bool.or_eq_true, beq_iff_eq] at h
+    by_cases hax : a = x
+    · subst hax
+      simp only [List.filter_cons, bne_self_eq_false, Bool.false_eq_true, if_false, List.length_cons]
+      exact Nat.lt_succ_of_le (List.length_filter_le _ _)
+    · have hxa : ¬ (x = a) := fun e => hax e.symm
+      have hin : rest.contains x = true := by
+        rcases h with h | h
+        · exact absurd h hxa
+        · exact h
+      have := ih hin
+      have hne : (a != x) = true := by simpa using hax
+      simp only [List.filter_cons, hne, if_true, List.length_cons]
+      omega
+
+theorem rank_closeSess {s : State} {sid : Nat} (hio : s.ioAlive = true) (hm : s.live.contains sid = true) :
+    rank (closeSess s sid) < rank s := by
+  have := filter_length_lt hm
+  unfold closeSess rank
+  simp only [touch_threads, touch_td, touch_ioAlive, touch_live, trank_wakeAll, hio, if_true]
+  omega
+
+/-- a thread inside a call can always take a step of its own that brings it closer to its return, once the fence is set -/
+theorem thread_progress {s : State} (h : Inv s) (hsh : s.shuttingDown = true) {j : Nat} {t : Thread}
+    (hj : s.threads[j]? = some t) (hin : inside t.pc = true) :
+    ∃ st, ok s st = true ∧ rank (step s st) < rank s ∧ shape (step s st).td = shape s.td ∧ (step s st).dtorOn = s.dtorOn := by
+  have hk := h.KP j t hj
+  obtain ⟨k, pc, c⟩ := t
+  cases pc with
+  | notStarted => simp [inside] at hin
+  | done r => simp [inside] at hin
+  | fdtor => simp [inside] at hin
+  | parked a =>
+    refine ⟨.wake j true, rfl, ?_⟩
+    simp only [step, doWake, hj]
+    cases k with
+    | recv sid =>
+      simp only [touch_closed, touch_sh, touch_threads, Bool.or_true, if_true, setT]
+      have := trank_set { kind := Kind.recv sid, pc := Pc.done (if s.closed sid = true then Res.peerClosed else if s.shuttingDown = true then Res.shuttingDown else Res.timeout), completed := c } hj
+      refine ⟨?_, by simp, by simp [touch]; split <;> rfl⟩
+      simp only [rank, pcRank, tdRank_notifyTd, touch_td, touch_ioAlive, touch_live] at this ⊢
+      omega
+    | conn =>
+      simp only [touch_sh, touch_threads, setT, hsh, if_true]
+      split
+      · have := trank_set { kind := Kind.conn, pc := Pc.done Res.completed, completed := c } hj
+        refine ⟨?_, by simp, by simp [touch]; split <;> rfl⟩
+        simp only [rank, pcRank, tdRank_notifyTd, touch_td, touch_ioAlive, touch_live] at this ⊢
+        omega
+      · have := trank_set { kind := Kind.conn, pc := Pc.done Res.shuttingDown, completed := c } hj
+        refine ⟨?_, by simp, by simp [touch]; split <;> rfl⟩
+        simp only [rank, pcRank, tdRank_notifyTd, touch_td, touch_ioAlive, touch_live] at this ⊢
+        omega
+    | flush => simp [kindOk] at hk
+  | window =>
+    refine ⟨.connClose j, rfl, ?_⟩
+    simp only [step, doConnClose, hj, setT]
+    have := trank_set { kind := k, pc := Pc.relock, completed := c } hj
+    refine ⟨?_, by simp, by simp [touch]; split <;> rfl⟩
+    simp only [rank, pcRank, touch_threads, touch_td, touch_ioAlive, touch_live] at this ⊢
+    omega
+  | relock =>
+    refine ⟨.connRelock j, rfl, ?_⟩
+    simp only [step, doConnRelock, hj, setT, touch_threads, touch_sh]
+    have := trank_set { kind := k, pc := Pc.done (if s.shuttingDown = true then Res.shuttingDown else Res.timeout), completed := c } hj
+    refine ⟨?_, by simp, by simp [touch]; split <;> rfl⟩
+    simp only [rank, pcRank, tdRank_notifyTd, touch_td, touch_ioAlive, touch_live] at this ⊢
+    omega
+  | floop =>
+    refine ⟨.flushStep j false, rfl, ?_⟩
+    simp only [step, doFlushStep, hj, setT, touch_threads, touch_sh, hsh, if_true]
+    have := trank_set { kind := k, pc := Pc.fend false, completed := c } hj
+    refine ⟨?_, by simp, by simp [touch]; split <;> rfl⟩
+    simp only [rank, pcRank, touch_td, touch_ioAlive, touch_live] at this ⊢
+    omega
+  | fcb =>
+    refine ⟨.flushStep j false, rfl, ?_⟩
+    simp only [step, doFlushStep, hj, setT]
+    have := trank_set { kind := k, pc := Pc.floop, completed := c } hj
+    refine ⟨?_, by first | rfl | trivial, by first | rfl | trivial⟩
+    simp only [rank, pcRank] at this ⊢
+    omega
+  | fend r =>
+    refine ⟨.flushStep j false, rfl, ?_⟩
+    simp only [step, doFlushStep, hj, setT, touch_threads]
+    have := trank_set { kind := k, pc := Pc.done (Res.flushed r), completed := c } hj
+    refine ⟨?_, by simp, by simp [touch]; split <;> rfl⟩
+    simp only [rank, pcRank, tdRank_notifyTd, touch_td, touch_ioAlive, touch_live] at this ⊢
+    omega
+
+/-- destruction has begun: the destructor has taken its first step, or a flusher has released its guard inside `~Transport` -/
+def begun (s : State) : Prop := shape s.td ≠ 0 ∨ s.dtorOn ≠ none
+
+theorem exists_inside_of_gate_false {s : State} (h : Inv s) (hg : gate s = false) :
+    ∃ (j : Nat) (t : Thread), s.threads[j]? = some t ∧ inside t.pc = true := by
+  have key : ∀ (p : Thread → Bool), (∀ t, p t = true → inside t.pc = true) → 0 < s.threads.countP p →
+      ∃ (j : Nat) (t : Thread), s.threads[j]? = some t ∧ inside t.pc = true := by
+    intro p hp hpos
+    obtain ⟨t, ht, hpt⟩ := List.countP_pos_iff.mp hpos
+    obtain ⟨j, hj⟩ := List.mem_iff_getElem?.mp ht
+    exact ⟨j, t, hj, hp t hpt⟩
+  rw [gate_def] at hg
+  simp only [Bool.and_eq_false_iff, beq_eq_false_iff_ne] at hg
+  rcases hg with (hx | hx) | hx
+  · exact key countedRecv (fun t => (counted_inside t).1) (by rw [← h.CR]; omega)
+  · exact key countedConn (fun t => (counted_inside t).2.1) (by rw [← h.CC]; omega)
+  · exact key countedFlush (fun t => (counted_inside t).2.2) (by rw [← h.CF]; omega)
+
+theorem get_of_fdAt {l : List Thread} {i : Nat} (h : fdAt l i = true) : ∃ t, l[i]? = some t ∧ t.pc = .fdtor := by
+  unfold fdAt at h
+  split at h
+  · rename_i t ht; exact ⟨t, ht, by simpa using h⟩
+  · cases h
+
+/-- **no dead end**: once destruction has begun and until `Impl` is gone, some thread can take a step that respects the contract
+and strictly decreases `rank` -/
+theorem progress {s : State} (h : Inv s) (h2 : Inv2 s) (hb : begun s) (hnd : s.td ≠ .destroyed) :
+    ∃ st, ok s st = true ∧ rank (step s st) < rank s ∧ begun (step s st) := by
+  cases htd : s.td with
+  | destroyed => exact absurd htd hnd
+  | idle =>
+    have hdt : s.dtorOn ≠ none := by
+      rcases hb with hb | hb
+      · rw [htd] at hb; exact absurd rfl hb
+      · exact hb
+    have hsj : s.stopJoining = false := by
+      cases hs : s.stopJoining with
+      | false => rfl
+      | true => exact absurd (h2.SJ hs).2.1 hdt
+    refine ⟨.tdBegin, by simp [ok, hsj], ?_⟩
+    simp only [step, doTdBegin, htd]
+    split
+    · refine ⟨?_, Or.inl (by simp [shape])⟩
+      simp [rank, waitOutEntry, trank_wakeAll, tdRank, htd]
+    · split
+      · refine ⟨?_, Or.inl (by simp [shape])⟩
+        simp [rank, waitOutEntry, trank_wakeAll, tdRank, htd]
+      · refine ⟨?_, Or.inl (by simp [shape])⟩
+        simp [rank, waitOutEntry, trank_wakeAll, tdRank, htd]
+  | fenced =>
+    have hrun := h2.FR (by rw [htd]; rfl)
+    refine ⟨.tdStop, rfl, ?_⟩
+    simp only [step, doTdStop, htd, hrun, if_true]
+    refine ⟨?_, Or.inl (by simp [shape])⟩
+    simp [rank, tdRank, htd]
+  | joining =>
+    cases hio : s.ioAlive with
+    | true =>
+      have hrun := h2.JR (by rw [htd]; rfl)
+      have hfree : ioFree s = true := by simp [ioFree, hio, htd]
+      cases hl : s.live with
+      | nil =>
+        refine ⟨.ioDrain none, rfl, ?_⟩
+        simp only [step, doIoDrain, hfree, hrun, hl, htd]
+        refine ⟨?_, Or.inl (by simp [shape, htd])⟩
+        simp [rank, hio, hl, htd, tdRank]
+      | cons sid rest =>
+        have hm : s.live.contains sid = true := by simp [hl]
+        refine ⟨.ioDrain (some sid), rfl, ?_⟩
+        simp only [step, doIoDrain, hfree, hrun, hm]
+        refine ⟨by simpa using rank_closeSess hio hm, Or.inl ?_⟩
+        simp [closeSess, htd, shape]
+    | false =>
+      refine ⟨.tdJoined, rfl, ?_⟩
+      simp only [step, doTdJoined, htd, hio]
+      simp only [Bool.false_eq_true, if_false]
+      split
+      · refine ⟨?_, Or.inl (by simp [shape])⟩
+        simp [rank, waitOutEntry, trank_wakeAll, tdRank, htd]
+      · refine ⟨?_, Or.inl (by simp [shape])⟩
+        simp [rank, waitOutEntry, trank_wakeAll, tdRank, htd]
+  | waiting a =>
+    have hsh := h.FS (by rw [htd]; simp)
+    cases hg : gate s with
+    | true =>
+      refine ⟨.tdWake, rfl, ?_⟩
+      simp only [step, doTdWake, htd, hg, if_true]
+      refine ⟨?_, Or.inl (by simp [shape])⟩
+      simp [rank, tdRank, htd]
+    | false =>
+      obtain ⟨j, t, hj, hin⟩ := exists_inside_of_gate_false h hg
+      obtain ⟨st, hok, hr, hs, _⟩ := thread_progress h hsh hj hin
+      exact ⟨st, hok, hr, Or.inl (by rw [hs, htd]; simp [shape])⟩
+  | waited =>
+    cases hdt : s.dtorOn with
+    | none =>
+      refine ⟨.tdDestroy, rfl, ?_⟩
+      simp only [step, doTdDestroy, htd, hdt]
+      refine ⟨?_, Or.inl (by simp [shape])⟩
+      simp [rank, tdRank, htd]
+    | some i =>
+      refine ⟨.tdOrphan, rfl, ?_⟩
+      simp only [step, doTdOrphan, htd, hdt]
+      refine ⟨?_, Or.inl (by simp [shape])⟩
+      simp [rank, tdRank, htd]
+  | ioWaiting a =>
+    have hsh := h.FS (by rw [htd]; simp)
+    cases hg : gate s with
+    | true =>
+      refine ⟨.tdWake, rfl, ?_⟩
+      simp only [step, doTdWake, htd, hg, if_true]
+      refine ⟨?_, Or.inl (by simp [shape])⟩
+      simp [rank, tdRank, htd]
+    | false =>
+      obtain ⟨j, t, hj, hin⟩ := exists_inside_of_gate_false h hg
+      obtain ⟨st, hok, hr, hs, _⟩ := thread_progress h hsh hj hin
+      exact ⟨st, hok, hr, Or.inl (by rw [hs, htd]; simp [shape])⟩
+  | ioReleased =>
+    have hio := (h2.IOA (Or.inr (by rw [htd]; rfl))).1
+    have hrun := h2.IOR (by rw [htd]; rfl)
+    have hfree : ioFree s = true := by simp [ioFree, hio, htd]
+    cases hl : s.live with
+    | nil =>
+      refine ⟨.ioDrain none, rfl, ?_⟩
+      simp only [step, doIoDrain, hfree, hrun, hl, htd]
+      refine ⟨?_, Or.inl (by simp [shape])⟩
+      simp [rank, hio, hl, tdRank, htd] <;> omega
+    | cons sid rest =>
+      have hm : s.live.contains sid = true := by simp [hl]
+      refine ⟨.ioDrain (some sid), rfl, ?_⟩
+      simp only [step, doIoDrain, hfree, hrun, hm]
+      refine ⟨by simpa using rank_closeSess hio hm, Or.inl ?_⟩
+      simp [closeSess, htd, shape]
+  | flushOwned =>
+    have hne := h2.DT3 (by rw [htd]; rfl)
+    cases hdt : s.dtorOn with
+    | none => exact absurd hdt hne
+    | some i =>
+      obtain ⟨t, hi, hpc⟩ := get_of_fdAt (h2.DT2 i hdt (by rw [htd]; simp [shape]))
+      refine ⟨.flushStep i false, rfl, ?_⟩
+      obtain ⟨k, pc, c⟩ := t
+      simp only at hpc; subst hpc
+      simp only [step, doFlushStep, hi, htd, setT, touch_threads]
+      have := trank_set { kind := k, pc := Pc.done (Res.flushed false), completed := c } hi
+      refine ⟨?_, Or.inl (by simp [shape])⟩
+      simp only [rank, pcRank, tdRank, htd, touch_ioAlive, touch_live] at this ⊢
+      omega
+
+/-- from every state in which destruction has begun there is a schedule, respecting the contract and at most `rank s` steps
+long, that ends with `Impl` destroyed -/
+theorem completes : ∀ (n : Nat) (s : State), Inv s → Inv2 s → begun s → rank s ≤ n →
+    ∃ steps : List Step, Disciplined s steps ∧ steps.length ≤ n ∧ (run s steps).td = .destroyed := by
+  intro n
+  induction n with
+  | zero =>
+    intro s _ _ _ hr
+    refine ⟨[], trivial, Nat.le_refl _, ?_⟩
+    have : tdRank s.td = 0 := by unfold rank at hr; omega
+    simp only [run]
+    cases htd : s.td <;> simp [htd, tdRank] at this
+    rfl
+  | succ n ih =>
+    intro s h h2 hb hr
+    by_cases hd : s.td = .destroyed
+    · exact ⟨[], trivial, Nat.zero_le _, hd⟩
+    · obtain ⟨st, hok, hlt, hb'⟩ := progress h h2 hb hd
+      have hi := step_inv h h2 st hok
+      obtain ⟨steps, hds, hlen, hfin⟩ := ih (step s st) hi.1 hi.2 hb' (by omega)
+      exact ⟨st :: steps, ⟨hok, hds⟩, by simp; omega, hfin⟩
+
+/-- `stop()` completes: a thread inside `stop()` returns after at most one step of the I/O thread per open session, one for the
+I/O thread to terminate, and one for the join -/
+theorem stop_completes : ∀ (n : Nat) (s : State), s.live.length ≤ n → s.stopJoining = true → s.running = false → s.td = .idle →
+    ∃ steps : List Step, steps.length ≤ n + 2 ∧ Disciplined s steps ∧ Ev.stopReturned ∈ (run s steps).log ∧
+      (run s steps).stopJoining = false := by
+  intro n
+  induction n with
+  | zero =>
+    intro s hl hsj hrun htd
+    have hnil : s.live = [] := List.eq_nil_of_length_eq_zero (Nat.le_zero.mp hl)
+    cases hio : s.ioAlive with
+    | false =>
+      refine ⟨[.stopJoin], by simp, ⟨rfl, trivial⟩, ?_⟩
+      simp [run, step, doStopJoin, hsj, hio]
+    | true =>
+      have hfree : ioFree s = true := by simp [ioFree, hio, htd]
+      refine ⟨[.ioDrain none, .stopJoin], by simp, ⟨rfl, rfl, trivial⟩, ?_⟩
+      simp [run, step, doIoDrain, doStopJoin, hfree, hrun, hnil, htd, hsj]
+  | succ n ih =>
+    intro s hl hsj hrun htd
+    cases hio : s.ioAlive with
+    | false =>
+      refine ⟨[.stopJoin], by simp, ⟨rfl, trivial⟩, ?_⟩
+      simp [run, step, doStopJoin, hsj, hio]
+    | true =>
+      have hfree : ioFree s = true := by simp [ioFree, hio, htd]
+      cases hlv : s.live with
+      | nil =>
+        refine ⟨[.ioDrain none, .stopJoin], by simp, ⟨rfl, rfl, trivial⟩, ?_⟩
+        simp [run, step, doIoDrain, doStopJoin, hfree, hrun, hlv, htd, hsj]
+      | cons sid rest =>
+        have hm : s.live.contains sid = true := by simp [hlv]
+        have hlt := filter_length_lt hm
+        have hm' : sid ∈ s.live := by simp [hlv]
+        have hstep : step s (.ioDrain (some sid)) = closeSess s sid := by
+          simp [step, doIoDrain, hfree, hrun, hm, hm']
+        obtain ⟨steps, hlen, hd, hlog, hsj'⟩ := ih (closeSess s sid) (by simp [closeSess]; omega) (by simp [closeSess, touch]; split <;> exact hsj)
+          (by simp [closeSess, touch]; split <;> exact hrun) (by simp [closeSess, htd])
+        refine ⟨.ioDrain (some sid) :: steps, by simp; omega, ⟨rfl, by rw [hstep]; exact hd⟩, ?_⟩
+        simp only [run, hstep]
+        exact ⟨hlog, hsj'⟩
 end Iora.Teardown
+
